@@ -12,1268 +12,1303 @@ Definition show_fres (r : fres) : string :=
   end.
 Definition check (rs : list rune) : string := digest (show_fres (format_res rs)).
 Definition full (rs : list rune) : string := show_fres (format_res rs).
-Eval vm_compute in ("<<<M3540>>>" ++ check (runes_of_ascii "// top
-options // c0
-{ // c1a
-  // c1b
-StringPrefixLenType
+Eval vm_compute in ("<<<M3511>>>" ++ check (runes_of_ascii "// top
+options // c0a
+  // c0b
+{ LittleEndian
     // c2
-= // c3
-u8 // c4a
-  // c4b
-; ArrayPrefixLenType // c6a
-  // c6b
-= // c7a
-  // c7b
+=
+    // c3
+true // c4
+; StringPrefixLenType
+    // c6
+= // c7
 u32 // c8a
   // c8b
-; // c9a
-  // c9b
-FixedStringPadFromLeft // c10
+; FixedStringPadChar // c10a
+  // c10b
 = // c11
-false // c12
-; // c13
-FixedStringPadChar // c14a
+'0' ;
+    // c13
+} // c14a
   // c14b
-= // c15
-' ' // c16a
-  // c16b
-; // c17
-} // c18
-packet // c19
-Party // c20a
-  // c20b
-{ repeat
-    // c22
-i16
-    // c23
-Qty // c24
-,
-    // c25
-repeat // c26a
-  // c26b
-string // c27
-Tail // c28a
-  // c28b
-, // c29a
-  // c29b
-i8 OrderId // c31
-, // c32
-i8 // c33
-msgKind
-    // c34
-, // c35
+packet // c15a
+  // c15b
+Logout // c16
+{
+    // c17
+repeat InMsgkind49 { // c20
+u8 // c21a
+  // c21b
+pad0 // c22
+, // c23
 }
+    // c24
+, // c25
+repeat // c26
+char[ // c27a
+  // c27b
+5 ]
+    // c29
+seqNo
+    // c30
+, // c31
+repeat // c32a
+  // c32b
+u8 // c33a
+  // c33b
+price // c34
+, }
     // c36
 packet
     // c37
-Ack { // c39a
-  // c39b
-Party ,
-    // c41
-repeat // c42a
-  // c42b
-InRef20
-    // c43
+Party // c38a
+  // c38b
 {
-    // c44
-Party
-    // c45
-, // c46a
+    // c39
+zchar[ 7 // c41a
+  // c41b
+] // c42
+Qty // c43
+, // c44a
+  // c44b
+} packet // c46a
   // c46b
-int8
-    // c47
-tag7 // c48a
-  // c48b
-, // c49a
-  // c49b
-char[
-    // c50
-5 // c51
-] // c52
-OrderId // c53
+Logon // c47
+{
+    // c48
+repeat InRef10 // c50a
+  // c50b
+{ string price // c53a
+  // c53b
 , // c54a
   // c54b
-zchar[ // c55a
-  // c55b
-7 // c56
-] Tail , // c59
 char[]
-    // c60
-count , // c62a
-  // c62b
-InPrice45 // c63a
+    // c55
+sym // c56a
+  // c56b
+, // c57
+repeat // c58a
+  // c58b
+Logout // c59a
+  // c59b
+, // c60
+} // c61
+,
+    // c62
+repeat // c63a
   // c63b
-{
-    // c64
-Party // c65a
+char[ 3 // c65a
   // c65b
-, char[ 1
+]
+    // c66
+count
+    // c67
+,
     // c68
-] Px
-    // c70
-,
-    // c71
-} // c72a
+repeat Party // c70
+, // c71a
+  // c71b
+char[] // c72a
   // c72b
-,
-    // c73
-} // c74
-,
-    // c75
-char[
-    // c76
-12 // c77
-] // c78a
+tag7 ,
+    // c74
+@rightPad // c75a
+  // c75b
+( // c76a
+  // c76b
+'0' ) // c78a
   // c78b
-price
-    // c79
-, // c80a
-  // c80b
-int8
+char[ // c79a
+  // c79b
+2 ]
     // c81
-sym // c82
-, // c83a
-  // c83b
-}
-    // c84
-packet // c85a
-  // c85b
-Reject
+clOrdID
+    // c82
+, // c83
+} packet Order
     // c86
-{ // c87
-repeat InPrice47 // c89
-{ // c90a
-  // c90b
-Party // c91
-,
+{
+    // c87
+InTail13 // c88
+{ // c89
+Party
+    // c90
+, // c91
+}
     // c92
-} ,
-    // c94
-zchar[
-    // c95
-4 // c96a
-  // c96b
-] x
+, // c93
+repeat // c94
+char[ // c95a
+  // c95b
+4 ]
+    // c97
+count
     // c98
 , // c99
-repeat // c100a
-  // c100b
-Ack // c101
-, // c102
-zchar[ // c103a
-  // c103b
-2 // c104a
-  // c104b
-] Ref // c106
-, repeat Party // c109
-, // c110
 }
-    // c111
-packet
-    // c112
-Cancel // c113a
-  // c113b
-{
-    // c114
-Reject , repeat
-    // c117
-string f1
-    // c119
-, // c120
-uint16 // c121
-OrderId // c122a
-  // c122b
-, // c123
-u8 // c124a
-  // c124b
-Acct // c125
-, // c126
-int8
-    // c127
-msgKind // c128
-, } // c130
-root
-    // c131
-packet // c132
-Fill // c133a
-  // c133b
-{ u8 // c135
-count // c136a
-  // c136b
-, char[] // c138
-tag7 // c139a
-  // c139b
-, // c140a
-  // c140b
-zchar[ // c141a
-  // c141b
-7
-    // c142
-]
-    // c143
-Acct , u32
-    // c146
-OrderId ,
-    // c148
-u32
-    // c149
-Note // c150
-@lengthOf( Body )
-    // c153
+    // c100
+root // c101a
+  // c101b
+packet // c102
+Cancel { // c104a
+  // c104b
+Logout
+    // c105
+, // c106a
+  // c106b
+@leftPad // c107a
+  // c107b
+( '0' ) // c110a
+  // c110b
+char[ 9 // c112
+] msgKind , // c115
+string // c116a
+  // c116b
+lastPx // c117
+, string // c119a
+  // c119b
+tag7 // c120a
+  // c120b
 ,
-    // c154
+    // c121
+zchar[ // c122a
+  // c122b
+1 // c123
+] // c124
+OrderId // c125
+,
+    // c126
+repeat
+    // c127
+Party // c128a
+  // c128b
+, // c129
+u16
+    // c130
+sym
+    // c131
+, u16 // c133
+Acct @lengthOf( // c135a
+  // c135b
+Body
+    // c136
+) , // c138a
+  // c138b
 match
-    // c155
-OrderId as Body { // c159a
-  // c159b
-106 // c160a
-  // c160b
+    // c139
+sym
+    // c140
+as
+    // c141
+Body // c142a
+  // c142b
+{ [ // c144a
+  // c144b
+24 , 44 // c147
+]
+    // c148
+: Logout // c150a
+  // c150b
+, // c151
+160 // c152a
+  // c152b
+: Order , // c155
+91 // c156a
+  // c156b
+: Logon , 43 // c160
 : // c161
-Cancel // c162
-, 196 // c164
+Party
+    // c162
+, // c163
+} // c164
+, u16 Tail // c167
+@calculatedFrom( // c168a
+  // c168b
+""CRC32"" ) // c170a
+  // c170b
+, // c171
+} // c172
+")).
+Eval vm_compute in ("<<<M3522>>>" ++ check (runes_of_ascii "// top
+options
+    // c0
+{ LittleEndian =
+    // c3
+false // c4a
+  // c4b
+; // c5
+StringPrefixLenType // c6a
+  // c6b
+= // c7
+u16 ;
+    // c9
+ArrayPrefixLenType // c10a
+  // c10b
+=
+    // c11
+u32 // c12
+; // c13
+} packet Order { uint8 // c18
+x
+    // c19
+, repeat // c21
+string venue // c23a
+  // c23b
+,
+    // c24
+}
+    // c25
+packet // c26
+Heartbeat
+    // c27
+{ // c28
+i64 // c29
+count ,
+    // c31
+zchar[
+    // c32
+1 ] Qty ,
+    // c36
+repeat // c37a
+  // c37b
+InX29 // c38
+{ // c39a
+  // c39b
+InSeqno26 // c40
+{ // c41a
+  // c41b
+int64
+    // c42
+f1 , char[ // c45a
+  // c45b
+5 ] Acct , // c49a
+  // c49b
+Order
+    // c50
+,
+    // c51
+} // c52a
+  // c52b
+, // c53a
+  // c53b
+repeat
+    // c54
+InSide285
+    // c55
+{ // c56a
+  // c56b
+repeat
+    // c57
+Order // c58
+, char[ // c60a
+  // c60b
+10 // c61a
+  // c61b
+] // c62a
+  // c62b
+Px // c63a
+  // c63b
+, // c64a
+  // c64b
+zchar[ // c65a
+  // c65b
+9
+    // c66
+] OrderId // c68a
+  // c68b
+, // c69a
+  // c69b
+} // c70a
+  // c70b
+, // c71a
+  // c71b
+char[] venue // c73a
+  // c73b
+,
+    // c74
+Order
+    // c75
+,
+    // c76
+} , // c78
+@rightPad
+    // c79
+( // c80
+'\x00' // c81
+) // c82
+char[
+    // c83
+4 ] clOrdID
+    // c86
+, // c87
+}
+    // c88
+root packet Party // c91
+{ zchar[ // c93a
+  // c93b
+3
+    // c94
+]
+    // c95
+f1 // c96a
+  // c96b
+, u32 clOrdID // c99a
+  // c99b
+, // c100a
+  // c100b
+u32
+    // c101
+Px // c102
+@lengthOf( // c103
+Body // c104a
+  // c104b
+) ,
+    // c106
+match // c107a
+  // c107b
+clOrdID // c108a
+  // c108b
+as // c109a
+  // c109b
+Body
+    // c110
+{ [ 180 , // c114
+64 // c115
+] // c116a
+  // c116b
+: // c117
+Heartbeat // c118a
+  // c118b
+, // c119
+11 // c120a
+  // c120b
 :
-    // c165
-Reject
-    // c166
-, 74 : // c169
-Party , // c171
-75 // c172
-: // c173a
-  // c173b
-Ack
-    // c174
-, // c175
-} , } ")).
-Eval vm_compute in ("<<<M8>>>" ++ check (runes_of_ascii "MetaData string_{
-} packet
-    Packet
-// c
-// c
-{
-    // @lengthOf(
-    zchar[ 65535 ]	metadata  ,} MetaData  body { u
-    packetx ,
-char[] roots `" ++ [233]%N ++ runes_of_ascii "`,
-i32 Header , uint32
-    packetx /// triple
-,	} packet Foo  { @rightPad ()
-match crc
-    as u128{ // c
-""it's"":	As , 0
-    :x_y_z , """"
-:
-msg_type } // @lengthOf(
-, match pack
-as	x_y_z {255: msg_type , } , i8 A , int8 BodyLength
-@lengthOf( tag ) , @calculatedFrom( ""CRC32""
-) match int as Header {
-4294967296	: x_y_z ,
-    // @lengthOf(
-    }	, match
-chars	as // a // b
-calculatedFrom {  [0 ,
-0
-, // c
-1 , 0123456789 , 00 // c
-, ""a\""b""	,// `tick` ""quote"" 'q'
-4294967296 ]:
+    // c121
+Order
+    // c122
+, // c123a
+  // c123b
+} // c124
+,
+    // c125
+u32 // c126
+Side2 @calculatedFrom( ""CRC32""
+    // c129
+)
+    // c130
+, // c131a
+  // c131b
+}
+    // c132
+")).
+Eval vm_compute in ("<<<M3850>>>" ++ check (runes_of_ascii "options {
+    rootA = """"
+    BodyLength = 0123456789;
+    roots = string
+    options1 = ' '
+}
+
+root packet int {
+    repeat zchar[00] Logon,
+    repeat uint16 body `// not a comment`,
+    @calculatedFrom(""a\""b"")
+    repeat string MetaDataX `a\`,
+    string lengthOf `" ++ [28040; 24687; 31867; 22411]%N ++ runes_of_ascii "`,
+    @tag(3)
+    trueish calculatedFrom,//
+}
+
+root packet i64_ {
+    zchar[007] rootA `" ++ [28040; 24687; 31867; 22411]%N ++ runes_of_ascii "`,
+    @leftPad(' ')
+    @calculatedFrom(""a\\"")
+    @calculatedFrom(""a\""b"")
+    repeat f64 trueish `" ++ [233]%N ++ runes_of_ascii "`,
+    repeat int {
+        match msg_type as asx {
+            """" : u128,
+            [""1"", ""\" ++ [233]%N ++ runes_of_ascii """] : options1,
+            ""x y"" : u8x,
+            ""// no comment"" : BodyLength,
+            [7, ""a\""b"", 4294967296] : asx,
+        },
+        crc @calculatedFrom(""""),
+        // `tick` ""quote"" 'q'
+        match metadata as lengthOf {
+            [4294967296, ""a	b"", ""packet"", ""// no comment""] : repeatCount,
+        },
+        u128 {
+            crc,
+            repeat options1,
+            uint64 BodyLength,
+            matchKey `
+            `,
+        },
+    },
+    @lengthOf(zchar)
+    int8 lengthOf `say ""hi""`,
+}
+
+root packet pack {
+    @calculatedFrom(""a	b"")
+    // " ++ [27880; 37322]%N ++ runes_of_ascii "
+    Pad,
+    @calculatedFrom(""packet"")
+    match u as leftPad {
+        [""{,}""] : A,
+        ""{,}"" : u128,
+        [""1"", 007] : a1,
+        [""1""] : Packet,
+        4294967296 : i8i8,
+        00 : roots,
+        //
+        // packet A { u8 x, }
+    },//
+    char[0123456789] calculatedFrom `say ""hi""`,
+    uint8 int @calculatedFrom(""a\\""),
+    Packet pack,// c
+}")).
+Eval vm_compute in ("<<<M239>>>" ++ check (runes_of_ascii "packet x_y_z {
+packetx { i16 pack `doc` ,
+    repeat char[
+    255
+]leftPad
+    ,
+} , u8x , match o as roots {
+[ // a // b
+0123456789 ]
+    // packet A { u8 x, }
+    : x_y_z [""a\\""
+    ] : packetx
+    , }
+,  repeat charz{	int32 i64_ `{ , }`,
+}  ,  }
+    packet x_y_z { @calculatedFrom(
+""CRC32""
+    )
+@tag( 00 ) @lengthOf(x ) match As as
 stringy
-    ,""`tick`"" : T }, @tag( 0 )@tag(
-    1 )
-@lengthOf(u8x ) u8x {  body
-    , repeat// trailing space 
-calculatedFrom x_y_z `two words` ,  } , match  falsey
-as leftPad {	007	:  A, [""" ++ [28040; 24687]%N ++ runes_of_ascii """ ] : tag ,
-1:
+    { 1	: i64_
+    ,// " ++ [27880; 37322]%N ++ runes_of_ascii "
+[""it's""
+,
+""1"" ,
+""x y"" //
+, 4294967296
+    ,
+""\n"" , ""x y"" ] :
+u128 ,00 : calculatedFrom
+,	[ // " ++ [128512]%N ++ runes_of_ascii " emoji
+4294967296
+    , ""// no comment""
+    , 42
+    ,
+3,""{,}""
+    // packet A { u8 x, }
+    ]  :	charz} ,
+@calculatedFrom( ""a\\""
+)  Logon A ,chars  @lengthOf(Logon
+), @rightPad
+('0' )@tag(	0 ) @rightPad  ( '0' ) string Foo // trailing space 
+`a\`
+    ,
+}  packet packetx
+{repeat i64_
+    {  o @lengthOf(A) ,
+    },@tag(
+    42
+    ) repeat char[]
+    crc ,
+    @leftPad ( ) u16 roots , falsey @lengthOf( As) , repeat  Foo{ float32 f32a@calculatedFrom( ""`tick`"" )
+, len
+`
+`
+// a // b
+/// triple
+,
+    // packet A { u8 x, }
+    }, @leftPad
+('\x00' )	T@calculatedFrom( ""a	b"" ) `" ++ [28040; 24687; 31867; 22411]%N ++ runes_of_ascii "`,  char[]
+// c
+// " ++ [128512]%N ++ runes_of_ascii " emoji
+trueish `u8 x,` , @lengthOf(falsey
+    )
+    match
+    // " ++ [27880; 37322]%N ++ runes_of_ascii "
+    rootA
+    as BodyLength { // " ++ [128512]%N ++ runes_of_ascii " emoji
+[
+""CRC32"" ]: x ,
+// @lengthOf(
+// c
+42
+:
+// packet A { u8 x, }
+// `tick` ""quote"" 'q'
+BodyLength , // trailing space 
+} ,
+    }")).
+Eval vm_compute in ("<<<M1269>>>" ++ check (runes_of_ascii "packet a1{ repeat uint8x { zchar[
+    3 ]metadata@lengthOf(  chars ) `it's`
+, u8 packetx @calculatedFrom(""CRC32"" ) `two words`, repeat leftPad {
+match MetaDataX as
+    f32a{ [4294967296
+]
+: packetx, 255
+: As ,
+[ ""\n"",""\" ++ [233]%N ++ runes_of_ascii """ ,
+    007, """ ++ [128512]%N ++ runes_of_ascii """ , 7 ] :float
+, 0123456789 : /// triple
+u128  ""a\""b"": calculatedFrom ,
+    } ,
+match len	as u { [ 42 , 4294967296 ] : a1 , ""it's""
+    :rootA,7:
+lengthOf ,	""`tick`"" :rootA,
+4294967296	: calculatedFrom , }, repeat string MetaDataX `it's`
+, } , uint16 uint8x , } ,	string_ @lengthOf( u ) ,
+zchar[	0123456789 ]
+pack @calculatedFrom( """"/// triple
+) `u8 x,` , @lengthOf(
+    x_y_z ) @lengthOf( u128
+)
+@tag( 007)zchar[
+10 ]
+    _x `doc`	, string BodyLength ,
+// `tick` ""quote"" 'q'
+// `tick` ""quote"" 'q'
+i64
+msg_type
+`u8 x,`
+, f64 Pad`say ""hi""`
+, string
+// c
+//x
+float , f64 lengthOf @calculatedFrom( """ ++ [28040; 24687]%N ++ runes_of_ascii """ ),// " ++ [128512]%N ++ runes_of_ascii " emoji
+}options { // packet A { u8 x, }
+matchKey =
+    f32 ;}
+packet Foo {repeat
+T // packet A { u8 x, }
+,repeat string_ { i16 uint8x
+,	} // a // b
+, repeat falsey A`doc` , repeat	lengthOf
+    /// triple
+    i8i8
+    `tab	here`,
+repeat char[
+    10	]  x_y_z //
+``, //	t
+@leftPad ( ) @rightPad (
+) options1 `doc`
+,
+u32 packetx,	u8	float `crlf
+line` ,
+    } packet	tag {
+}
+// " ++ [128512]%N ++ runes_of_ascii " emoji
+")).
+Eval vm_compute in ("<<<M830>>>" ++ check (runes_of_ascii "packet chars { float{ match
+Header
+    as stringy{ // a // b
+1
+: i64_
+    ,65535  :
+T
+    ,
+007
+    :
+    string_ , 00 : pack ,
+}
+    ,
+    // @lengthOf(
+    i16 int@calculatedFrom(
+//	t
+//x
+""{,}""
+),
+char[ 255  ] trueish,
+}
+,
+    repeat string_
+    //	t
+    { trueish {
+match rootA as Logon
+{
+0
+: metadata
+10
+: tag,
+    },	matchKey {match
+    tag as lengthOf	{[
+""`tick`"" , 00] : Header , [ 4294967296 ]
+    :
+    tag , 4294967296
+:
+//
+/// triple
+leftPad
+, [
+""abc"",	65535 ,""a\""b""
+    , // a // b
+""// no comment""] : float ,},} // trailing space 
+,/// triple
+}, match BodyLength as	a1
+    {	65535: A
+255:	lengthOf ""\n""
+: roots
+, } ,	repeat repeatCount , charz trueish  `it's`
+    ,	} // a // b
+, char[]
     //
-    Pad ,}
-    , // c
-float64
-repeatCount , @tag(10 ) match stringy
-    as
-Logon {7:
-Pad, }	, }
-    packet Packet {
-@calculatedFrom( ""\n"" ) @calculatedFrom( ""`tick`"" ) matchKey
-, @lengthOf( zchar )
-roots	{repeat i16 Z9_, match
-    repeatCount as
-stringy { [ ""x y""
-    ]:packetx	, [""" ++ [128512]%N ++ runes_of_ascii """ , ""x y""	, ""\n"" ] : crc , },}
+    tag @calculatedFrom( ""a\""b""
+    ) ,@calculatedFrom(""// no comment""
+)uint16 options1 `
+`
+    , } packet x_y_z
+{ @calculatedFrom( """ ++ [28040; 24687]%N ++ runes_of_ascii """  ) @tag( 0 )
+@lengthOf(
+falsey
+) zchar @calculatedFrom(
+    ""x y"" )
+, /// triple
+float64 stringy @lengthOf(
+    /// triple
+    matchKey
 // `tick` ""quote"" 'q'
 //x
-, // packet A { u8 x, }
-match // trailing space 
-tag as
-a1 // " ++ [128512]%N ++ runes_of_ascii " emoji
-{ ""abc"": packetx 1
-: u8x 1 : body
-007 : leftPad
-0123456789
-    :Header} ,
-i16 x_y_z
-    ,@calculatedFrom( ""{,}""
-    )o `it's` , string_@calculatedFrom( ""it's"" ) `crlf
-line` , match i8i8 as lengthOf
-    { [ 1 , ""a\\"" ,
-    42 ,""""  ,
-""a\\"" ]
-    // " ++ [128512]%N ++ runes_of_ascii " emoji
-    : o , 10
-    :
-Foo //x
-[7 ]:// trailing space 
-lengthOf , } ,repeat
-    A { repeat T { char[
-    007
-    //x
-    ] i64_ @lengthOf( Packet
-    // a // b
-    ) ,
-    match T as repeatCount // " ++ [27880; 37322]%N ++ runes_of_ascii "
-{  ""x y"" :
-As
-,
-    } , repeat metadata, msg_type
-{
-float64//
-float , i8 o`u8 x,` // " ++ [27880; 37322]%N ++ runes_of_ascii "
-,char[
-0 ]	A @calculatedFrom(
-""1""
-    )
-    `two words` //	t
-, i8 body
-    @lengthOf( Packet), } ,//
-} ,rootA{
-f32a
-@lengthOf( pack
-    ), }, repeat char[] u , }
-, }
+)// c
+, string_  ,@leftPad ( )
+    options1
+repeatCount`" ++ [233]%N ++ runes_of_ascii "` , }	packet
+    lengthOf
+    {// packet A { u8 x, }
+}
 ")).
-Eval vm_compute in ("<<<M3898>>>" ++ check (runes_of_ascii "//x
-root packet i8i8 {
-    u128 {
-        repeat lengthOf Foo `u8 x,`,
-        MetaDataX falsey `two words`,
-        Pad {
-            u8 a1 @lengthOf(leftPad),
-        },
-        int @calculatedFrom(""a\\"") `
-                `,
-    },
-    Header Logon,
-    match rootA as BodyLength {
-        """ ++ [28040; 24687]%N ++ runes_of_ascii """ : Pad,
-        [1, """ ++ [233]%N ++ runes_of_ascii "t" ++ [233]%N ++ runes_of_ascii """] : _x,
-    },
-    options1 `crlf
-        line`,
-    repeat u {
-        match i8i8 as falsey {
-            // `tick` ""quote"" 'q'
-            [42, 4294967296] : x_y_z,
-            42 : float,
-            // `tick` ""quote"" 'q'
-            // c
-            3 : packetx,
-        },
-    },
-    charz,
-}
-
-// a // b
-root packet float {
-    repeat _x body `say ""hi""`,
-    charz `// not a comment`,
-    repeat lengthOf {
-        repeatCount {
-            repeat tag {
-                zchar[42] leftPad,
-                repeat zchar[0123456789] T `crlf
-                                line`,
-                char[] trueish,
-                zchar[007] lengthOf @lengthOf(string_) `" ++ [233]%N ++ runes_of_ascii "`,
-            },
-            repeat int32 As,
-            int8 chars,
-            i32 calculatedFrom `it's`,
-        },
-        zchar[00] chars ``,
-    },
-    char[255] charz @calculatedFrom(""1"") `doc`,// packet A { u8 x, }
-    match body as rootA {
-        ""CRC32"" : A,
-        [
-            007, 0, 0123456789, 1, ""{,}"",
-            ""1"", ""// no comment"", ""it's""
-        ] : BodyLength,
-        65535 : x_y_z,
-        [""`tick`""] : a1,
-    },
-    repeat asx {
-        char[0123456789] i64_ `" ++ [28040; 24687; 31867; 22411]%N ++ runes_of_ascii "`,
-    },
-    @lengthOf(x_y_z)
-    pack @calculatedFrom(""" ++ [233]%N ++ runes_of_ascii "t" ++ [233]%N ++ runes_of_ascii """),
-    @tag(3)
-    repeat uint64 o,// @lengthOf(
-}")).
-Eval vm_compute in ("<<<M3601>>>" ++ check (runes_of_ascii "root packet Foo {
-    chars {
-        falsey body,
-        zchar[3] repeatCount `{ , }`,
-    },
-    @lengthOf(BodyLength)
-    i8 Z9_ @lengthOf(trueish),// " ++ [128512]%N ++ runes_of_ascii " emoji
-    @rightPad()
-    repeat Pad {
-        _x @calculatedFrom(""\" ++ [233]%N ++ runes_of_ascii """),
-        match msg_type as uint8x {
-            [1, 0, ""\n"", ""\n""] : Packet,
-            ""CRC32"" : pack,
-        },
-    },
-    @calculatedFrom(""a\""b"")
-    repeat body {
-        char[007] i64_ `
-        `,
-        match charz as pack {
-            65535 : u8x,
-            65535 : zchar,
-            [255] : chars,
-            1 : stringy,
-            [""" ++ [28040; 24687]%N ++ runes_of_ascii """] : int,
-            0 : asx,
-        },
-    },
-    match o as A {
-        007 : calculatedFrom,
-        ""abc"" : roots,
-        ""`tick`"" : Foo,
-        ""it's"" : Foo,
-        007 : float,
-    },
-    @leftPad(' ')
-    // `tick` ""quote"" 'q'
-    // trailing space 
-    repeat repeatCount,
-    char[007] u128 `crlf
-    line`,
-}//
-
-packet asx {
-    charz {
-        rootA @calculatedFrom(""" ++ [233]%N ++ runes_of_ascii "t" ++ [233]%N ++ runes_of_ascii """),
-    },
-}
-
-packet msg_type {
-}
-
-MetaData o {
-    f32 msg_type,
-    int64 body,
-}
-
-root packet body {
-    @tag(1)
-    @calculatedFrom(""`tick`"")
-    @tag(0123456789)
-    metadata {
-        pack i64_,
-    },
-    repeat zchar[7] asx,
-    chars @calculatedFrom(""\n""),
-    repeat zchar[4294967296] x,
+Eval vm_compute in ("<<<M3836>>>" ++ check (runes_of_ascii "root packet T {
+    //	t
+    //
     @rightPad('\x00')
-    u8 msg_type `" ++ [233]%N ++ runes_of_ascii "`,
-    float64 pack @lengthOf(MetaDataX),
-}")).
-Eval vm_compute in ("<<<M3892>>>" ++ check (runes_of_ascii "//	t
-root packet T {
-    i8 roots,
-    @lengthOf(Pad)
-    @calculatedFrom(""a	b"")
-    @rightPad('0')
-    float @calculatedFrom(""" ++ [28040; 24687]%N ++ runes_of_ascii """) `{ , }`,
-    @lengthOf(roots)
-    repeat tag {
-        match i8i8 as packetx {
-            // a // b
-            /// triple
-            [""// no comment""] : packetx,
-            ""\" ++ [233]%N ++ runes_of_ascii """ : i8i8,
-            ""a\\"" : Packet,
-            // packet A { u8 x, }
-            00 : a1,
-            ""1"" : Foo,
-            ""\" ++ [233]%N ++ runes_of_ascii """ : rootA,
-        },
-        uint8x matchKey `two words`,
-        char[0123456789] i8i8,
+    repeat metadata {
+        repeat i64 Z9_,
     },
-    @lengthOf(calculatedFrom)
-    Foo a1,
-    @lengthOf(pack)
-    zchar[3] trueish,
-}
-
-root packet o {
-}
-
-root packet tag {
-    @lengthOf(A)
-    uint16 i64_ `it's`,// a // b
-    repeat roots {
-        string stringy,
-        match _x as int {
-            7 : leftPad,
-            65535 : lengthOf,
-            7 : Foo,
-            ""a\\"" : float,
-            255 : leftPad,
-            007 : u128,
-        },
-        MetaDataX @lengthOf(leftPad),
-        lengthOf @calculatedFrom(""`tick`""),
-    },
-    @rightPad()
-    @lengthOf(f32a)
-    zchar[00] T @calculatedFrom(""a\""b""),
-    repeat Pad {
-        zchar[0] msg_type `say ""hi""`,
-    },
-    u64 string_ @lengthOf(T) `line1
-    line2`,
-}")).
-Eval vm_compute in ("<<<M371>>>" ++ check (runes_of_ascii "MetaData i8i8
-    // trailing space 
-    { Pad rootA
-`tab	here` //
-, x_y_z
-metadata
-,zchar[ 255] x_y_z `doc` , metadata i8i8 , uint8x
-    leftPad
-    `say ""hi""` , int32
-charz
-    `" ++ [28040; 24687; 31867; 22411]%N ++ runes_of_ascii "` , } packet
-len {  char[
-    255 ]
-f32a//x
-@calculatedFrom(
-""a	b"") `// not a comment` ,f64 u8x
-//
-// `tick` ""quote"" 'q'
-,
-options1
-{string charz `u8 x,` ,string_ // packet A { u8 x, }
-@calculatedFrom( // " ++ [27880; 37322]%N ++ runes_of_ascii "
-""a	b""
-) , repeat falsey {a1 `it's`  , stringy
-@lengthOf( Foo
-    )
-,	repeat  zchar[ 10  ]Logon
-`line1
-line2` ,  uint16 repeatCount @lengthOf( options1 )
-    `doc`
-,	} , repeat //x
-u packetx, } , falsey
-x_y_z, char[]matchKey
-`u8 x,`
-, } packet float
-{ @lengthOf( Foo ) u16 a1 `crlf
-line` // `tick` ""quote"" 'q'
-,
-    // `tick` ""quote"" 'q'
-    @leftPad( )
-@lengthOf( string_// `tick` ""quote"" 'q'
-)
-    match
-asx as lengthOf{ """"
-: f32a , }
-,roots {
-f32 A `a\` , i8 trueish @lengthOf(rootA )
-    ,}
-    ,
-options1
-    @lengthOf(_x
-    )
-    , /// triple
-@lengthOf( asx// `tick` ""quote"" 'q'
-)
-    charz
-    // " ++ [27880; 37322]%N ++ runes_of_ascii "
-    ,
-    zchar[ 10 ] a1
-    @calculatedFrom(
-    ""// no comment"")
-`say ""hi""`
-, //x
-uint16 x @calculatedFrom( ""a\\"" )	,}")).
-Eval vm_compute in ("<<<M4028>>>" ++ check (runes_of_ascii "root packet BodyLength {
-    x_y_z @calculatedFrom(""" ++ [233]%N ++ runes_of_ascii "t" ++ [233]%N ++ runes_of_ascii """),//	t
-    @lengthOf(A)
-    int8 options1 `u8 x,`,
-    @rightPad()
-    // " ++ [128512]%N ++ runes_of_ascii " emoji
-    // " ++ [27880; 37322]%N ++ runes_of_ascii "
-    repeat zchar[1] asx `
-        `,
-    i8i8 @lengthOf(asx) `it's`,
-    uint64 i8i8,
-    int32 Packet @lengthOf(x_y_z),
-    @tag(1)
-    repeat uint8 len,
-    char[] matchKey,
-    char[7] chars @calculatedFrom(""" ++ [233]%N ++ runes_of_ascii "t" ++ [233]%N ++ runes_of_ascii """),
-}
-
-packet i8i8 {
-    match body as repeatCount {
-        [
-            0123456789, 7, 1, ""a\\"", ""// no comment"",
-            ""x y"", ""// no comment""
-        ] : Foo,
-        007 : T,
-        [0, ""a\""b""] : BodyLength,
-    },
-    repeat Z9_ {
-        charz @calculatedFrom(""\n"") `tab	here`,// `tick` ""quote"" 'q'
-        repeatCount Pad `tab	here`,
-        i32 asx @lengthOf(i64_),
-    },
-}
-
-packet uint8x {
-    @calculatedFrom(""" ++ [233]%N ++ runes_of_ascii "t" ++ [233]%N ++ runes_of_ascii """)
-    zchar[0] metadata,
 }
 
 options {
-    msg_type = true
-    string_ = 007
-    a1 = ""// no comment"";
+    _x = char[];
+    tag = uint32
+    calculatedFrom = u16;
 }
 
-MetaData packetx {
-    BodyLength body `line1
-        line2`,
-    float tag,
-    x_y_z string_ `crlf
-        line`,
-    BodyLength f32a `" ++ [28040; 24687; 31867; 22411]%N ++ runes_of_ascii "`,
-    char[255] stringy,
-}")).
-Eval vm_compute in ("<<<M4118>>>" ++ check (runes_of_ascii "
-root	packet 
-matchKey{ match  uint8x
-	as
-
-x_y_z{ 1  : 	 // @lengthOf(
-falsey	// a // b
-,
-
-    } 
-, } 
-packet 
-  // " ++ [27880; 37322]%N ++ runes_of_ascii "
-  	MetaDataX
-{  
-      /// triple
-	float @calculatedFrom(
-""a\\""
-    )
-	`// not a comment`	, repeat  stringy {match repeatCount as a1
-    {
-    [
-    ""// no comment""
-	]:
-    metadata  , //	t
-      [
-4294967296 ,
-""" ++ [233]%N ++ runes_of_ascii "t" ++ [233]%N ++ runes_of_ascii """
-    ]
-
-: len
-[  ""a\\"" ,
-	4294967296 
-, ""packet""
-,""" ++ [233]%N ++ runes_of_ascii "t" ++ [233]%N ++ runes_of_ascii """
-
-, 10, 0  // " ++ [27880; 37322]%N ++ runes_of_ascii "
-]
-: 
-charz
-,
-00
-:
-i64_
-    , [
-7
-]: tag
-, 00 
-
-//	t
-
-  //	t
-:
-
-falsey 
-} , },
-roots@calculatedFrom(""1""	)
-`
-`
-    ,
-msg_type
-
-    @lengthOf(stringy
-) `a\`	,int
-
-MetaDataX `doc`
-, @calculatedFrom(	// trailing space 
-  """ ++ [128512]%N ++ runes_of_ascii """)
-	u64
-int 
-`say ""hi""` , }packet 	 //x
-rootA {asx// c
-    @lengthOf(
-
-Foo	)`a\`
-, @leftPad
-
-(
-' '  )
-    string  // c
-
-Z9_
-    ,
-    crc
-	//x
-  	@lengthOf( 
-        //	t
-  // a // b
-
-	leftPad
-) 
-`doc`	,  repeat	calculatedFrom
-
-// packet A { u8 x, }
-  u128
-
-    `{ , }`	, //x
-      @calculatedFrom(""packet""
-
-) @calculatedFrom(
-""\" ++ [233]%N ++ runes_of_ascii """) i16
-roots `doc`,
-	}
-")).
-Eval vm_compute in ("<<<M3689>>>" ++ check (runes_of_ascii "// a // b
-packet chars {
-    i64_ tag `say ""hi""`,
-}
-
-// " ++ [128512]%N ++ runes_of_ascii " emoji
-// `tick` ""quote"" 'q'
-packet tag {
-}// c
-
-packet roots {
-    repeat x_y_z `
-        `,
-}
-
-packet lengthOf {
-    // c
-    i64 int `{ , }`,
-    @lengthOf(trueish)
-    @lengthOf(stringy)
-    // @lengthOf(
-    repeat x repeatCount `u8 x,`,
-    char[] rootA,
-    uint16 int @calculatedFrom(""\" ++ [233]%N ++ runes_of_ascii """) `say ""hi""`,
-    @lengthOf(string_)
-    char[] int @calculatedFrom(""a\\""),
-    @tag(0)
-    @calculatedFrom(""\n"")
-    // " ++ [128512]%N ++ runes_of_ascii " emoji
-    i32 string_ @lengthOf(falsey) `say ""hi""`,
-    @tag(3)
-    @lengthOf(BodyLength)
-    repeat Z9_ {
-        match T as charz {
-            // packet A { u8 x, }
-            [
-                255, 00, 0123456789, ""a\""b"", """",
-                ""\n"", ""\" ++ [233]%N ++ runes_of_ascii """
-            ] : x_y_z,
-            3 : Foo,
+packet packetx {
+    @leftPad(' ')
+    int trueish,
+    packetx {
+        leftPad @lengthOf(string_),// `tick` ""quote"" 'q'
+        repeat o string_,
+        match stringy as packetx {
+            0 : pack,
+            // @lengthOf(
+            ""CRC32"" : tag,
+            // trailing space 
+            """ ++ [128512]%N ++ runes_of_ascii """ : Z9_,
+            4294967296 : chars,
+            007 : calculatedFrom,
+            10 : u8x,
         },
-        char[4294967296] calculatedFrom @lengthOf(Z9_),
     },
-    i64 trueish @lengthOf(T) `" ++ [233]%N ++ runes_of_ascii "`,
-    @lengthOf(body)
-    @lengthOf(matchKey)
-    tag trueish ``,
-}
-
-packet Foo {
-}")).
-Eval vm_compute in ("<<<M810>>>" ++ check (runes_of_ascii "root
-    packet
-    asx // trailing space 
-{
-    trueish lengthOf
-`line1
-line2`
-,	@rightPad (	)
-@rightPad(  '0') char[] a1 , } packet metadata {
-stringy `say ""hi""` , @lengthOf(
-int ) match u8x as
-    zchar {
-""" ++ [128512]%N ++ runes_of_ascii """ : repeatCount ,00
-: Header
-, 4294967296 : As ,
-    //	t
-    255
-:
-    //x
-    u8x
-,
-[ //	t
-0123456789 ]
-    :
-    // packet A { u8 x, }
-    pack// `tick` ""quote"" 'q'
-, } ,
-@calculatedFrom( """ ++ [233]%N ++ runes_of_ascii "t" ++ [233]%N ++ runes_of_ascii """ ) repeat x_y_z{ u16 len `say ""hi""`,} , @tag( 007 )@leftPad (
-    '0' // @lengthOf(
-)
-    match
-options1 as float {
-[""CRC32"" , ""CRC32""	]: x_y_z
-,0:
-    tag 255:
-    Logon , //	t
-42 : string_
-    } // c
-,	repeat zchar[ 007 ]u
-    ,  T {//x
-char[] asx ,
-    match trueish
-as A{ ""1""
-: tag , [  ""{,}""  , 7 ]:
-    Logon
-    , 4294967296 :
-    calculatedFrom ,""it's"" : uint8x, }, }	,@leftPad
-    ( )
-match x_y_z as
-Packet { [ """ ++ [28040; 24687]%N ++ runes_of_ascii """	,
-4294967296
-] :int	,
-    } , char[]
-int  @calculatedFrom( ""\" ++ [233]%N ++ runes_of_ascii """	) //	t
-`" ++ [233]%N ++ runes_of_ascii "`, }")).
-Eval vm_compute in ("<<<M1349>>>" ++ check (runes_of_ascii "  options
-//
-// packet A { u8 x, }
-{ MetaDataX  = '0'
-; Logon=
-    false ; int//	t
-='0' _x
-=
-// trailing space 
-//	t
-""x y""
-//	t
-/// triple
-;}
-    packet
-tag { @tag( /// triple
-10)repeat msg_type ,  match x
-    as
-Foo
-{ ""x y"": body  ,  } , @tag(	0
-)repeat char[
-    7 ] options1	, repeat falsey
-{ int8  options1
-,	i8i8
-`crlf
-line`
-    ,
-u16 // " ++ [27880; 37322]%N ++ runes_of_ascii "
-f32a @calculatedFrom( ""// no comment"" // @lengthOf(
-) , } , @calculatedFrom( ""{,}""// " ++ [128512]%N ++ runes_of_ascii " emoji
-) uint32 repeatCount, msg_type @calculatedFrom( ""it's"" )//
-`crlf
-line` , @tag(// `tick` ""quote"" 'q'
-00) match T as options1
-{ 4294967296 :
-repeatCount  , }
-,
-// @lengthOf(
-//	t
-}
+    repeat BodyLength {
+        //	t
+        repeat char[3] metadata `a\`,
+        repeat char pack `a\`,
+        char Header @calculatedFrom(""// no comment""),
+        uint32 roots @lengthOf(i64_),
+    },
+    // a // b
     // trailing space 
-    MetaData msg_type  {Foo u , char[] Pad
-`
-`
-    , BodyLength As
-,  char[ 007 ] calculatedFrom /// triple
-`a\`
-,
-    //x
-    }  MetaData msg_type {}packet trueish  {T
-    // a // b
-    @lengthOf(
-    pack ) `crlf
-line` ,
-}
-")).
-Eval vm_compute in ("<<<M3981>>>" ++ check (runes_of_ascii "options{len
-
-    =
-    int8 /// triple
-  Header
-
-= '0'  ; } 
-packet
-options1 {
-    @calculatedFrom( 
-""{,}""
-
-)
-repeat 	 //
-
-  body  ,
-
-}
-
-    packet	uint8x
-	{
-	repeat
-
-    int8	f32a
-,
-
-}
-    packet
-    As
-
-    {
-match u128
-    as  o
-{
-
-    0 : len
-,
-    // c
-    }
-	,
-@calculatedFrom(	"""")
-	zchar// @lengthOf(
-As ,
-zchar[	00  ] 
-u8x	,
-    @lengthOf(u8x)  match stringy
-
-as	o{
-
-    [ ""1""
-
-,""\" ++ [233]%N ++ runes_of_ascii """
-
-] 	 // " ++ [128512]%N ++ runes_of_ascii " emoji
-    :repeatCount
-, [
-7
-	,  
-      // " ++ [27880; 37322]%N ++ runes_of_ascii "
-	3,
-	""1"" ,
-	007 ,""\n""  ,
-	0
-]  : metadata
-	, //	t
-	""it's""
-
-    :o
-
-    ,
-
-    00:
-    roots
-,
-
-    4294967296:
-
-uint8x
-, } ,@calculatedFrom( 
-""it's"" ) @tag(
-    3
-    )int
-	@lengthOf(  int
-	) ,
-char[] 
-asx
-
-@calculatedFrom(
-
-""a\""b"")	`a\`
-,
-int16 
-charz  ,
-	//	t
-string
-    x_y_z
-
-@lengthOf( int)
-`a\`, i64 o , 
-}
-    root packet
-
-zchar
-    {
-}
-
-")).
-Eval vm_compute in ("<<<M104>>>" ++ check (runes_of_ascii "
-root packet stringy{ repeat u16
-falsey `
-`
-, u16 Pad,
-    @lengthOf( // packet A { u8 x, }
-x)Logon { repeat
-zchar[65535
-    ]
-Packet`it's` , } ,}packet len {@leftPad( ) repeat metadata { match asx
-    as asx{""a\\"" :
-f32a ,}
-    ,}// " ++ [128512]%N ++ runes_of_ascii " emoji
-,
-uint16  falsey ,body ,repeat
-    // a // b
-    string
-    lengthOf `say ""hi""`
-    , } packet i64_
-{	x
-    ,@lengthOf( i64_ )
-@tag( 7// a // b
-)
-    // `tick` ""quote"" 'q'
-    @calculatedFrom(""""
-    )  repeat zchar[
-    1 ] i8i8
-    ,
-    i64
-    i64_ @calculatedFrom(
-    ""\" ++ [233]%N ++ runes_of_ascii """ )`line1
-line2`,
-float//x
-`tab	here` , @calculatedFrom( """ ++ [128512]%N ++ runes_of_ascii """ ) char[] Logon// @lengthOf(
-`` , match  leftPad as stringy {
-    0
-    :float , ""\n""
-    : // trailing space 
-Pad  , } ,
-i8i8 @lengthOf( roots )	, } root packet	i8i8 { tag
-    @lengthOf(T
-) `" ++ [28040; 24687; 31867; 22411]%N ++ runes_of_ascii "` // " ++ [128512]%N ++ runes_of_ascii " emoji
-, }")).
-Eval vm_compute in ("<<<M924>>>" ++ check (runes_of_ascii "options {msg_type=	int64 ;// `tick` ""quote"" 'q'
-tag // c
-=
-// `tick` ""quote"" 'q'
-// " ++ [128512]%N ++ runes_of_ascii " emoji
-true falsey = ' '
-    ;  } MetaData float
-// a // b
-/// triple
-{
-    chars
-    pack  , o Pad
-, // `tick` ""quote"" 'q'
-rootA int , // `tick` ""quote"" 'q'
-i64 Logon, char[ 00 ]lengthOf
-`two words` , u128 u8x
-    `// not a comment`
-,
-    }MetaData packetx { }root	packet uint8x
-    { @lengthOf( matchKey ) MetaDataX {o { repeat
-uint16 i64_ , uint64  msg_type
-@calculatedFrom( """"  ) , } , //
-repeat i64 BodyLength
-    `u8 x,`
-    , char[] Z9_
-,} , //
-char[ 3]
-stringy
-    ,
-    @lengthOf(
-uint8x
-) @calculatedFrom(	""abc""	)
-A
-    `" ++ [28040; 24687; 31867; 22411]%N ++ runes_of_ascii "` ,
-i32
-    msg_type  , i8 f32a @lengthOf( falsey ) , @calculatedFrom( ""CRC32"" ) u8
-    MetaDataX  @calculatedFrom(
-""`tick`"" ), }
-")).
-Eval vm_compute in ("<<<M3530>>>" ++ check (runes_of_ascii "options {
-    StringPrefixLenType = u16;
-    ArrayPrefixLenType = u32;
-    FixedStringPadFromLeft = false;
-    FixedStringPadChar = '0';
-}
-packet Logout {
-    f64 f1,
-    i16 Note,
-    @rightPad('\x00') char[11] Flags,
-}
-packet Cancel {
-    float64 msgKind,
-}
-packet Reject {
-    InQty43 {
-        float32 sym,
-        char[10] Tail,
-        uint8 venue,
-        uint16 f1,
-        char[9] Acct,
-    },
-}
-packet Trade {
+    pack,
+    repeat len Header `
+    `,
+    f64 f32a,
     char[] x,
-    zchar[6] Note,
-    repeat Reject,
-}
-root packet Order {
-    Cancel,
-    Logout,
-    u64 Acct,
-    u32 OrderId,
-    match OrderId as Body {
-        [127, 70] : Reject,
-        177 : Trade,
-        58 : Logout,
-        75 : Cancel,
-    },
-    u32 Tail @calculatedFrom(""CR\
-C32""),
-}
-")).
-Eval vm_compute in ("<<<M3933>>>" ++ check (runes_of_ascii "// a // b
-root packet charz {
-    @tag(007)
-    repeat u32 chars,
-    Packet `doc`,
+    Header @lengthOf(a1),
+    asx @lengthOf(calculatedFrom),
 }
 
-MetaData rootA {
-    char[42] Packet `crlf
-        line`,
-}
-
-// c
-packet asx {
-    repeat calculatedFrom {
-        asx @lengthOf(chars),
-        repeat string x_y_z `line1
-                line2`,
-        repeat u32 i64_ `it's`,
-        A @lengthOf(Logon) `tab	here`,
-    },
-    uint32 asx @lengthOf(BodyLength),
-    // " ++ [27880; 37322]%N ++ runes_of_ascii "
-    // " ++ [27880; 37322]%N ++ runes_of_ascii "
-    char[0123456789] calculatedFrom,
-    repeat Z9_,
-    match asx as uint8x {
-        // c
-        [7, ""{,}"", ""it's"", ""CRC32""] : msg_type,
-        [1] : u8x,
-        ""CRC32"" : T,
-    },
-    i8 charz @calculatedFrom(""x y"") `" ++ [233]%N ++ runes_of_ascii "`,
-}
-
-MetaData u8x {
-    i8 T,
+MetaData roots {
+    options1 As,
+    string_ float `{ , }`,// trailing space 
 }")).
-Eval vm_compute in ("<<<M419>>>" ++ check (runes_of_ascii "// `tick` ""quote"" 'q'
-packet
-    A {
-// `tick` ""quote"" 'q'
-// c
-repeat lengthOf // " ++ [128512]%N ++ runes_of_ascii " emoji
-{ As
-metadata,match pack as// @lengthOf(
-As {[ 7 ]://x
-int
-,""it's"" : i64_ ,""a\""b"": // " ++ [27880; 37322]%N ++ runes_of_ascii "
-string_ ,
-    [ 00 , 4294967296 , ""{,}"" , """ ++ [233]%N ++ runes_of_ascii "t" ++ [233]%N ++ runes_of_ascii """ ,
-""" ++ [233]%N ++ runes_of_ascii "t" ++ [233]%N ++ runes_of_ascii """
-, ""abc"",
-1
-, 1]
-: Pad
-    // @lengthOf(
-    } , leftPad x
-// @lengthOf(
-//x
-`" ++ [28040; 24687; 31867; 22411]%N ++ runes_of_ascii "` ,
-char[ 65535
-    ]metadata ,}
-    ,
-}packet	a1 {
-} packet//x
-pack
-{ int {i64_  x_y_z,// " ++ [128512]%N ++ runes_of_ascii " emoji
-u8x `say ""hi""` ,f32 A
-    `u8 x,`  ,} ,
-}
-    root packet falsey { @tag( 255) repeat float64
-Logon
-    ,
-float64
-Foo @lengthOf( float )  , } options{ matchKey
-    // packet A { u8 x, }
-    = char[] ; tag =' ' ; i64_=
-""1"" }
-")).
-Eval vm_compute in ("<<<M1142>>>" ++ check (runes_of_ascii "options{ } options  { calculatedFrom = true int = ""it's""tag  = false
+Eval vm_compute in ("<<<M3751>>>" ++ check (runes_of_ascii "
+
+  options
+
+    { StringPrefixLenType=  u8 
 ;
-i64_= 3; chars
-= ' ' } options //	t
-{ o = ' '; repeatCount // a // b
-= 00} root
-// " ++ [128512]%N ++ runes_of_ascii " emoji
-// " ++ [128512]%N ++ runes_of_ascii " emoji
-packet
-uint8x
-{
-// @lengthOf(
-// `tick` ""quote"" 'q'
-@rightPad ( '\x00'
-    )i64
-    pack @calculatedFrom(
-    ""\" ++ [233]%N ++ runes_of_ascii """)
-    , repeat char[ 255] body , @tag(10
-)@lengthOf( x_y_z	)int8 a1 `doc` ,i64_ @calculatedFrom(
-""// no comment"")
-// " ++ [27880; 37322]%N ++ runes_of_ascii "
-// " ++ [128512]%N ++ runes_of_ascii " emoji
-`" ++ [233]%N ++ runes_of_ascii "` ,match asx as i64_ {
-""a\""b"" :  f32a , [ ""a\\""] : Logon  , [ 4294967296 ]:
-    pack ,10 : x_y_z
-// `tick` ""quote"" 'q'
-// trailing space 
-,3
-: charz } , @leftPad ( )  asx chars	`tab	here` , }
+    ArrayPrefixLenType =	u8
+;  FixedStringPadFromLeft = true ;
+
+    FixedStringPadChar
+
+    =' ';
+
+    }
+    packet	Logout {
+repeat string 
+Px
+, repeat
+string
+    seqNo ,
+    InMsgkind64
+{uint16
+    OrderId , char[] count, 
+repeat
+	i32 venue ,}
+    ,
+}
+	packet
+Heartbeat {float32
+    tag7,
+repeat 
+InPrice50	{repeat 
+char[ 5 ] lastPx
+
+    , InRef42
+	{	u8
+    pad0
+
+    , }
+	, 
+uint32 Acct , repeat  Logout, repeat
+    char[	5]  Qty 
+,	}, repeat
+InSeqno30{repeat 
+Logout
+
+,
+
+}
+    ,@leftPad
+
+    ( '0'
+)
+    char[
+12
+
+]  Acct ,char[]Side2,
+    repeat
+string msgKind , } packet
+
+    Ack
+
+    {
+Heartbeat  ,char[  8
+
+    ]
+    seqNo,
+
+    float64  clOrdID, 
+}
+
+packet	Trade{  char[] OrderId
+	, f64 Side2	,zchar[	8
+]
+	f1 , string
+Qty
+
+,  float64 
+seqNo, repeat	Logout ,} packet Order{	f32
+
+    OrderId , repeat  u8 x
+, Ack
+,
+	zchar[  7  ]Note
+,
+	} root
+
+    packet
+
+Logon  {
+
+    @rightPad ( '\x00'
+
+) char[
+9 
+]
+
+f1
+	, }
 ")).
+Eval vm_compute in ("<<<M4283>>>" ++ check (runes_of_ascii "MetaData o {
+    char[255] BodyLength,
+}
+
+packet crc {
+    @tag(7)
+    calculatedFrom @lengthOf(Header),
+    len {
+        float {
+            i32 T,
+            stringy string_,
+            char[65535] Packet @lengthOf(a1) ``,
+            falsey {
+                u16 Logon `{ , }`,
+            },
+        },
+        repeat falsey,
+        repeat u8 Logon,
+    },
+    zchar[65535] lengthOf @lengthOf(asx) `line1
+        line2`,
+    @rightPad('0')
+    int16 f32a,
+    @rightPad('\x00')
+    char[] len `" ++ [28040; 24687; 31867; 22411]%N ++ runes_of_ascii "`,
+    match string_ as string_ {
+        [""a\\"", 10, 007, 0123456789] : As,
+        [""`tick`""] : metadata,
+        ""\n"" : falsey,
+        // `tick` ""quote"" 'q'
+        [3, """ ++ [233]%N ++ runes_of_ascii "t" ++ [233]%N ++ runes_of_ascii """, ""CRC32""] : lengthOf,
+        00 : x_y_z,
+    },
+    packetx {
+        repeat a1 `it's`,
+        stringy `{ , }`,
+        match T as MetaDataX {
+            ""CRC32"" : lengthOf,
+        },
+    },
+}
+
+MetaData tag {
+    //x
+}
+
+packet Z9_ {
+    i16 rootA `
+        `,//	t
+}")).
+Eval vm_compute in ("<<<M3629>>>" ++ check (runes_of_ascii "options 
+	    //	t
+  {
+	As
+
+    =false 
+}	//	t
+
+packet
+falsey	{
+
+    @lengthOf(float	// packet A { u8 x, }
+    ) 
+@calculatedFrom(
+    ""\n""
+	) u32
+
+    As
+    , match leftPad 
+as repeatCount {0:
+Z9_  ,
+
+1 : repeatCount
+    ,
+
+[// trailing space 
+	  65535 // c
+	]
+
+: Pad 
+00:	packetx	""a\\"":
+packetx
+, 00 : 
+crc
+
+    ,
+}
+,
+
+    repeat Packet  ,
+repeat
+	float  /// triple
+
+{u128
+@calculatedFrom( """ ++ [28040; 24687]%N ++ runes_of_ascii """ ) `say ""hi""`
+
+    ,
+u64  Foo `say ""hi""`
+
+,} ,
+	@leftPad
+( '\x00' )
+    @tag(	1
+)
+
+@calculatedFrom(  ""`tick`""
+
+    ) f64 lengthOf
+,
+
+    @rightPad	(
+
+    '0'  )  @leftPad
+(
+	)@lengthOf( f32a
+
+) repeat 
+i64_	x_y_z
+,@rightPad( '\x00'	)
+    o@calculatedFrom( """"
+	)
+
+`a\`,  
+      // a // b
+//x
+	asx{	repeat T
+	chars
+	``,
+repeat
+    char[  0]string_
+
+    , 
+}	,
+repeat  char 
+repeatCount
+`u8 x,` ,
+zchar[7 ]T 
+@calculatedFrom(
+    // packet A { u8 x, }
+	  //x
+""a\\"" ), }")).
+Eval vm_compute in ("<<<M4193>>>" ++ check (runes_of_ascii "root packet lengthOf {
+}//x
+
+packet _x {
+    //
+    @calculatedFrom(""a	b"")
+    @tag(65535)
+    char[65535] matchKey,
+}
+
+packet leftPad {
+    u16 leftPad,
+    @tag(0123456789)
+    // " ++ [128512]%N ++ runes_of_ascii " emoji
+    // @lengthOf(
+    char[1] f32a @lengthOf(options1),
+    string_ BodyLength,
+    Foo `" ++ [28040; 24687; 31867; 22411]%N ++ runes_of_ascii "`,
+    @lengthOf(u128)
+    i32 trueish @lengthOf(chars) `it's`,
+    u8x u8x `{ , }`,
+    match Foo as leftPad {
+        // c
+        0123456789 : calculatedFrom,
+    },
+    @leftPad('0')
+    int32 rootA `crlf
+        line`,
+    match BodyLength as pack {
+        [10] : stringy,
+        10 : stringy,
+        1 : u,
+    },
+    match zchar as calculatedFrom {
+        """ ++ [128512]%N ++ runes_of_ascii """ : len,
+    },
+}
+
+MetaData Z9_ {
+    Pad As `line1
+        line2`,
+    Z9_ zchar,
+    int8 repeatCount,
+    i64_ trueish,
+    A uint8x,// trailing space 
+    leftPad Logon `two words`,
+}
+
+options {
+}")).
+Eval vm_compute in ("<<<M61>>>" ++ check (runes_of_ascii "  root packet pack {zchar[	255
+    ] T`a\`
+    , char[] Z9_ @lengthOf(
+// c
+//x
+u8x  )
+    `two words` , A
+{ repeat  char[]
+    x  ``,
+// @lengthOf(
+/// triple
+repeat zchar[ //
+007  ] i64_
+    ,  } , uint8x @lengthOf(
+    i64_
+    )	``,
+}
+packet	calculatedFrom{ @leftPad ( )
+u32	calculatedFrom``
+,
+@tag(0123456789 // " ++ [27880; 37322]%N ++ runes_of_ascii "
+)@leftPad ( ) int8 _x
+``
+,
+match rootA as  u { // c
+10
+: Z9_ , 0123456789: float
+//
+// c
+0: float ,
+[ ""it's""/// triple
+]
+:
+packetx , } ,// `tick` ""quote"" 'q'
+@lengthOf( string_ ) zchar[ 0123456789
+    ] body @lengthOf(
+repeatCount	) ,
+    @calculatedFrom( ""\n"" ) match // `tick` ""quote"" 'q'
+body as u8x{ ""a\""b""
+    :T , [ ""\n"" ,// " ++ [27880; 37322]%N ++ runes_of_ascii "
+""" ++ [233]%N ++ runes_of_ascii "t" ++ [233]%N ++ runes_of_ascii """, ""CRC32"", 255 ,7
+, ""// no comment""
+,
+    """ ++ [28040; 24687]%N ++ runes_of_ascii """] : x , 255	: packetx } , @tag(65535 ) repeat
+    // a // b
+    Header
+zchar , } MetaData Logon { }
+")).
+Eval vm_compute in ("<<<M3847>>>" ++ check (runes_of_ascii "root packet body {
+    @tag(255)
+    chars calculatedFrom,
+    //	t
+    @rightPad('0')
+    @calculatedFrom(""a	b"")
+    @rightPad()
+    stringy @calculatedFrom(""it's""),
+    repeat string trueish,
+    @calculatedFrom("""")
+    asx @lengthOf(options1) `doc`,
+    u32 Logon,
+    float64 i64_ @lengthOf(metadata),
+    @calculatedFrom(""`tick`"")
+    chars @lengthOf(len) `line1
+        line2`,
+    f32a {
+        match trueish as roots {
+            ""1"" : body,
+            ""// no comment"" : Packet,
+            [42, ""it's"", 0, ""it's""] : charz,
+            ""a\""b"" : stringy,
+            // a // b
+            //x
+        },
+    },
+    uint8x {
+        zchar[10] As,
+    },
+    @tag(0123456789)
+    @rightPad('0')
+    @calculatedFrom("""")
+    asx @lengthOf(trueish),
+}
+
+root packet trueish {
+}")).
+Eval vm_compute in ("<<<M4390>>>" ++ check (runes_of_ascii "packet a1 {
+    @tag(007)
+    match packetx as a1 {
+        [0123456789, 0123456789] : tag,
+        ""\n"" : uint8x,
+        00 : Z9_,
+        ""\" ++ [233]%N ++ runes_of_ascii """ : i64_,
+        [""// no comment"", ""`tick`""] : asx,
+    },//
+}
+
+options {
+    crc = '0'
+    Logon = """";
+    // packet A { u8 x, }
+    falsey = 4294967296;
+}
+
+packet string_ {
+    repeat leftPad {
+        repeat uint64 x,
+        u8 uint8x `u8 x,`,
+    },
+    repeat tag options1,// trailing space 
+    int64 trueish @lengthOf(asx) `
+    `,
+    // c
+    match i8i8 as MetaDataX {
+        ""a\\"" : falsey,
+    },
+    repeat char[1] As,
+    zchar[42] Pad @lengthOf(repeatCount),
+    @leftPad('\x00')
+    uint64 string_ `say ""hi""`,
+    @calculatedFrom(""CRC32"")
+    char MetaDataX,// packet A { u8 x, }
+}")).
+Eval vm_compute in ("<<<M840>>>" ++ check (runes_of_ascii "packet a1  { @tag(00 )
+    charz{
+    // @lengthOf(
+    char[ 007 ] i8i8	@calculatedFrom( ""// no comment"" ) ,
+    float {char[  1 ] Packet @lengthOf(len ) `crlf
+line` , }, }	, @rightPad//x
+(' ' ) match x_y_z
+as repeatCount
+    {
+// c
+//	t
+""`tick`""  :
+    pack
+,  ""`tick`"":
+    u ""abc""
+:
+u128, [ """ ++ [233]%N ++ runes_of_ascii "t" ++ [233]%N ++ runes_of_ascii """ , ""x y""
+//
+//	t
+]//	t
+:float
+,
+0123456789
+/// triple
+// a // b
+:calculatedFrom },
+repeat zchar[ 1 //x
+]
+    zchar ,	char[ 255 ]  matchKey , repeat float { match
+chars  as asx {
+[ 0
+,
+0 ,	""""  ] :i64_ 00 : BodyLength  ,
+//
+// " ++ [27880; 37322]%N ++ runes_of_ascii "
+""// no comment""
+:a1 , } , repeat
+    T i64_ ,
+// packet A { u8 x, }
+// c
+repeat char[ 0 ] len ,
+}// " ++ [27880; 37322]%N ++ runes_of_ascii "
+, zchar[42 ] uint8x @calculatedFrom(
+    //	t
+    ""// no comment""
+),}
+")).
+Eval vm_compute in ("<<<M284>>>" ++ check (runes_of_ascii "packet Pad
+{char[ 007] string_ ,// @lengthOf(
+@lengthOf( zchar
+)string rootA
+, @lengthOf(T ) char trueish @lengthOf(
+    zchar
+) `line1
+line2`, repeat f64 calculatedFrom , @calculatedFrom(""it's"" ) leftPad
+    `it's`
+    , stringy{
+int8 Packet @lengthOf( metadata
+)
+`tab	here`
+    ,
+A ,
+    match charz as uint8x{ 3
+:  MetaDataX ,
+    1
+    :
+    //	t
+    charz ""a	b""
+    :
+    //x
+    msg_type	,
+    //x
+    [
+0 , 10 , ""// no comment"" ,""\" ++ [233]%N ++ runes_of_ascii """
+] : A , // @lengthOf(
+""\n"" :
+trueish , },	},
+    @calculatedFrom( ""a\\"")
+char[ 7 ] u @calculatedFrom( ""a\\""),
+    //	t
+    @tag(	7) o
+{	As `it's`	,} ,} packet u	{
+}packet stringy {
+@tag(0123456789 )string pack @lengthOf( Pad), }")).
+Eval vm_compute in ("<<<M4042>>>" ++ check (runes_of_ascii "// a // b
+packet matchKey {
+    @rightPad(' ')
+    @tag(007)
+    @lengthOf(float)
+    repeat packetx,
+    // @lengthOf(
+    @calculatedFrom(""a\""b"")
+    /// triple
+    @tag(255)
+    @tag(00)
+    Pad @calculatedFrom(""" ++ [28040; 24687]%N ++ runes_of_ascii """) `{ , }`,
+}
+
+root packet string_ {
+    repeat Logon {
+        match Z9_ as float {
+            ""packet"" : packetx,
+            [""CRC32"", 42, 00, ""packet""] : Foo,
+            """ ++ [28040; 24687]%N ++ runes_of_ascii """ : BodyLength,
+            [""CRC32""] : x_y_z,
+            00 : packetx,
+            7 : rootA,
+        },
+    },
+    repeat metadata {
+        u16 Logon `
+                `,
+        matchKey @calculatedFrom(""""),
+        repeat char[] leftPad,
+    },
+}")).
+Eval vm_compute in ("<<<M4196>>>" ++ check (runes_of_ascii "options {
+    // c1
+    LittleEndian = false;// c5a
+    // c5b
+    StringPrefixLenType = u32;// c9a
+    // c9b
+    ArrayPrefixLenType = u16;// c13
+}// c14a
+
+// c14b
+packet Party {
+    // c17
+    @leftPad('0')
+    // c21
+    char[12] Ref,
+    // c26
+    repeat char[6] x,// c32
+}
+
+// c33
+packet Logon {
+    uint32 clOrdID,// c39a
+    // c39b
+    Party,
+}// c42
+
+root packet Ack {
+    zchar[2] f1,// c51a
+    // c51b
+    u32 seqNo,// c54a
+    // c54b
+    u32 Side2 @lengthOf(Body),
+    match seqNo as Body {
+        // c65
+        43 : Logon,
+        // c69a
+        // c69b
+        93 : Party,
+    },// c75a
+    // c75b
+}")).
 Eval vm_compute in ("<<<M259>>>" ++ check (runes_of_ascii "MetaData Header
 {
 } root	packet chars
@@ -1303,1194 +1338,1136 @@ msg_type {
     char[] calculatedFrom `line1
 line2`,
 } // `tick` ""quote"" 'q'")).
-Eval vm_compute in ("<<<M1282>>>" ++ check (runes_of_ascii "packet matchKey{char u128@calculatedFrom( ""CRC32""
-    //x
-    )
-`{ , }`
-, }
-    MetaData
-    leftPad
-//
-// c
-{ uint8x lengthOf
-// packet A { u8 x, }
-// @lengthOf(
-, o
-    f32a
-// a // b
-/// triple
-,zchar[7 ] Z9_ ,
+Eval vm_compute in ("<<<M3716>>>" ++ check (runes_of_ascii "options {
+    // " ++ [27880; 37322]%N ++ runes_of_ascii "
+    tag = ' '
+    leftPad = 255
+    x_y_z = uint32;// a // b
+    falsey = """ ++ [28040; 24687]%N ++ runes_of_ascii """
+    As = ""packet"";
 }
-packet body {	@tag( 255)
-repeatCount @lengthOf( BodyLength )
-, @tag( 7 ) repeat zchar[ 4294967296]i64_ , match x_y_z	as Header {""`tick`""
-: rootA , }  ,@calculatedFrom(
-""packet""
-    ) rootA
-    {  uint64
-string_
-, char[ // " ++ [27880; 37322]%N ++ runes_of_ascii "
-65535 ] BodyLength	@calculatedFrom(""a\""b"" ) `tab	here`
-    ,
-    int64 pack `line1
-line2`
-    ,}	, }
-")).
-Eval vm_compute in ("<<<M796>>>" ++ check (runes_of_ascii "//
-packet
-options1 { @leftPad (
-    ) char[ 4294967296] Z9_@lengthOf(i64_ )`" ++ [28040; 24687; 31867; 22411]%N ++ runes_of_ascii "` , }
-    options {} packet len
-{ u16
-    lengthOf , repeat
-    matchKey f32a
-,  string i64_ @calculatedFrom(  ""`tick`""  ) , zchar[ // @lengthOf(
-0
-]
-repeatCount ,stringy , _x {repeat As`crlf
-line`// `tick` ""quote"" 'q'
-, repeat Header MetaDataX,
-match
-    As as asx{
-    [ """ ++ [128512]%N ++ runes_of_ascii """
-// trailing space 
-// " ++ [128512]%N ++ runes_of_ascii " emoji
-] : len }	, repeat
-int16 u8x `say ""hi""`
-    ,}
-    , repeat char[] trueish , u32 tag @calculatedFrom( ""a\\"" ) `two words` , }
-")).
-Eval vm_compute in ("<<<M1085>>>" ++ check (runes_of_ascii "packet// a // b
-u8x{// a // b
-len
-    { o roots , match
-string_// c
-as
-repeatCount { [
-""`tick`"" ,""" ++ [128512]%N ++ runes_of_ascii """
-    ,// " ++ [128512]%N ++ runes_of_ascii " emoji
-7
-,""" ++ [233]%N ++ runes_of_ascii "t" ++ [233]%N ++ runes_of_ascii """ ,
-    10 , ""packet"" ,""\" ++ [233]%N ++ runes_of_ascii """  ] : roots ,[
-10,1 ]
-:
-    leftPad , } ,
-// c
-// c
-u  T // packet A { u8 x, }
-, zchar[ 3 // a // b
-] float `" ++ [28040; 24687; 31867; 22411]%N ++ runes_of_ascii "` ,} ,
-    } MetaData
-asx{ zchar[
-    10 ] BodyLength , roots tag , } MetaData zchar
-{uint64
-chars `" ++ [28040; 24687; 31867; 22411]%N ++ runes_of_ascii "`
-    ,char[]Logon
-, Packet o`crlf
-line` ,
-falsey float,
-    // @lengthOf(
-    char[]
-    uint8x , int  A`it's`, }")).
-Eval vm_compute in ("<<<M3285>>>" ++ check (runes_of_ascii "// top
-packet // c0
-trueish
-    // c1
-{ repeat // c3
-u32
-    // c4
-MetaDataX // c5a
-  // c5b
-`doc` // c6a
-  // c6b
-, Header
-    // c8
+
+packet As {
+    @lengthOf(u)
+    repeat u8 i8i8 `two words`,
+    @tag(00)
+    @tag(1)
+    char[255] a1 @lengthOf(zchar),
+    i32 u,
+    repeat float32 tag,
+    //
+    A,
+    repeat uint8 string_,
+    @calculatedFrom(""a\""b"")
+    @lengthOf(Header)
+    u {
+        int8 asx ``,
+        i32 Foo @lengthOf(tag) `
+        `,
+    },
+    float64 pack,
+    @tag(10)
+    Foo,
+    match repeatCount as u8x {
+        42 : o,
+    },
+}")).
+Eval vm_compute in ("<<<M4311>>>" ++ check (runes_of_ascii "
+root
+	packet
+roots {}
+packet As {
+@calculatedFrom(
+
+    """ ++ [28040; 24687]%N ++ runes_of_ascii """
+) 
+i16 msg_type
+
+`" ++ [28040; 24687; 31867; 22411]%N ++ runes_of_ascii "` 
+, 
+repeat  // trailing space 
+	repeatCount
+
 {
+	repeat
+pack
+
+msg_type`crlf
+line` , //
+    match	repeatCount	as 
+_x	{ ""`tick`""  : // a // b
+  trueish , 	 // c
+
+[ ""\n""
+
+    ,
+	65535
+, 
+255
+    ,
+    ""abc"",
+
+0123456789 
+]
+
+    : options1,}//
+
+	,	//x
+  	}	,
+}
+    // trailing space 
+  //
+    MetaData x_y_z
+
+    {	options1
+chars , int32 
+leftPad
+
+`{ , }`	,  string
+    i64_
+	`say ""hi""`
+,
+	int32 BodyLength 
+`a\`
+,	}")).
+Eval vm_compute in ("<<<M4048>>>" ++ check (runes_of_ascii "root packet metadata {
+    repeat zchar[255] matchKey `line1
+    line2`,
+    @tag(0)
+    // " ++ [128512]%N ++ runes_of_ascii " emoji
+    match A as msg_type {
+        ""packet"" : len,
+        255 : roots,
+        """ ++ [233]%N ++ runes_of_ascii "t" ++ [233]%N ++ runes_of_ascii """ : leftPad,
+        ""CRC32"" : Z9_,
+        //	t
+    },
+    @leftPad(' ')
+    char[] Logon,//x
+    char[3] T `{ , }`,
+    uint64 metadata @calculatedFrom(""1""),
+    @rightPad()
+    match u as len {
+        [""\" ++ [233]%N ++ runes_of_ascii """, ""1""] : f32a,
+    },
+    u128 falsey,
+    @calculatedFrom(""" ++ [28040; 24687]%N ++ runes_of_ascii """)
+    As @lengthOf(falsey),
+}")).
+Eval vm_compute in ("<<<M1365>>>" ++ check (runes_of_ascii "root packet
+    /// triple
+    stringy
+    { stringy
+pack
+, char[1 ] T // @lengthOf(
+@calculatedFrom( ""// no comment""
+),  zchar[ 4294967296 ] stringy
+@calculatedFrom(
+""CRC32"" )`doc` , zchar[1
+    ]
+body @lengthOf( A
+) ,	asx@lengthOf(
+    Packet ) `two words` // packet A { u8 x, }
+,leftPad @calculatedFrom( ""\n"" ) `it's` ,i16
+f32a
+    // @lengthOf(
+    , }MetaData
+metadata{
+char[	7 ]  crc , options1	u128 `two words` , falsey calculatedFrom, string_ As //x
+, }")).
+Eval vm_compute in ("<<<M3904>>>" ++ check (runes_of_ascii "root packet i64_ {
+    packetx {
+        string zchar @calculatedFrom(""`tick`"") `
+        `,
+        zchar[1] metadata `doc`,
+        Foo @calculatedFrom(""CRC32""),
+    },
+    char[] roots `crlf
+    line`,
+    @calculatedFrom(""it's"")
+    char rootA,
+    @tag(7)
+    charz o `it's`,// a // b
+    char[007] msg_type @lengthOf(x_y_z),
+    repeat zchar[007] repeatCount `say ""hi""`,
+    match i64_ as rootA {
+        [""abc""] : T,
+    },
+    repeat chars,
+}")).
+Eval vm_compute in ("<<<M4344>>>" ++ check (runes_of_ascii "packet i64_ {
+    @lengthOf(Foo)
+    // `tick` ""quote"" 'q'
+    @lengthOf(calculatedFrom)
+    o @calculatedFrom(""{,}""),
+    uint16 lengthOf @calculatedFrom(""" ++ [128512]%N ++ runes_of_ascii """),
+    char[007] trueish,
+    @tag(00)
+    @tag(007)
+    // a // b
+    // " ++ [128512]%N ++ runes_of_ascii " emoji
+    float @calculatedFrom(""\n""),
+    charz A,
+    Logon @calculatedFrom(""// no comment"") `
+    `,
+    @lengthOf(msg_type)
+    BodyLength As `a\`,
+    zchar[10] zchar @calculatedFrom("""") `doc`,
+}")).
+Eval vm_compute in ("<<<M1124>>>" ++ check (runes_of_ascii "MetaData
+    // `tick` ""quote"" 'q'
+    o { i64 crc , }
+packet falsey{	@tag( 0 )
+zchar @calculatedFrom(""x y"" ),crc // `tick` ""quote"" 'q'
+{
+char[ 7 ] Packet
+@lengthOf( asx ) , } ,
+@tag( 4294967296) @calculatedFrom(
+""" ++ [128512]%N ++ runes_of_ascii """ ) x_y_z trueish ,
+    @calculatedFrom(
+    ""\n"") // c
+falsey
+    Packet
+,float { T o
+    ,	zchar[ 4294967296 ]chars
+    , zchar[7] options1@calculatedFrom(  ""a\\"" ) ,
+repeat float32 Pad
+    , }
+, }
+")).
+Eval vm_compute in ("<<<M756>>>" ++ check (runes_of_ascii "//x
+options
+{  } packet As{ @leftPad() Packet  `a\`
+,// c
+}	packet i64_	{
+i16 charz
+    `tab	here`, @calculatedFrom(
+""" ++ [233]%N ++ runes_of_ascii "t" ++ [233]%N ++ runes_of_ascii """ ) @lengthOf(
+Packet )
+char[ 4294967296 ] msg_type	@lengthOf(
+leftPad ) ,  } MetaData o { x falsey ,// packet A { u8 x, }
+i16 u8x	`crlf
+line`, zchar[4294967296 ] // @lengthOf(
+u8x `" ++ [28040; 24687; 31867; 22411]%N ++ runes_of_ascii "` , char[
+3 ]Header	, x
+//
+// @lengthOf(
+string_
+    // " ++ [27880; 37322]%N ++ runes_of_ascii "
+    ,
+// c
+//	t
+} // @lengthOf(")).
+Eval vm_compute in ("<<<M3837>>>" ++ check (runes_of_ascii "options {
+    LittleEndian = false;
+    StringPrefixLenType = u32;
+    ArrayPrefixLenType = u16;
+}
+
+packet Party {
+    @leftPad('0')
+    char[12] Ref,
+    repeat char[6] x,
+}
+
+packet Logon {
+    uint32 clOrdID,
+    Party,
+}
+
+root packet Ack {
+    zchar[2] f1,
+    u32 seqNo,
+    u32 Side2 @lengthOf(Body),
+    match seqNo as Body {
+        43 : Logon,
+        93 : Party,
+    },
+}")).
+Eval vm_compute in ("<<<M1129>>>" ++ check (runes_of_ascii "root packet
+    // packet A { u8 x, }
+    string_ { @lengthOf( a1
+// @lengthOf(
+// c
+) @lengthOf( f32a ) Foo@lengthOf(// `tick` ""quote"" 'q'
+As ) `tab	here` ,
+}root // trailing space 
+packet crc { @calculatedFrom( // " ++ [27880; 37322]%N ++ runes_of_ascii "
+""1"") float32 pack , //	t
+} options {len = '\x00' ;uint8x
+// @lengthOf(
+// a // b
+= 0 ; Z9_
+= zchar[
+3	];tag// `tick` ""quote"" 'q'
+= ""a\""b""
+    ; }
+")).
+Eval vm_compute in ("<<<M4218>>>" ++ check (runes_of_ascii "options {
+    BodyLength = ""{,}""
+    tag = ""// no comment"";
+}
+
+options {
+    charz = '\x00';// a // b
+    repeatCount = 255;
+    _x = """ ++ [128512]%N ++ runes_of_ascii """;
+    Foo = '0'
+    a1 = '0'
+    //x
+    //
+}
+
+root packet falsey {
+    i64 packetx @lengthOf(Header) `" ++ [28040; 24687; 31867; 22411]%N ++ runes_of_ascii "`,
+    len @lengthOf(roots) `a\`,
+    zchar @lengthOf(MetaDataX) `line1
+    line2`,
+}// packet A { u8 x, }")).
+Eval vm_compute in ("<<<M58>>>" ++ check (runes_of_ascii "
+MetaData// `tick` ""quote"" 'q'
+asx
+{
+    // packet A { u8 x, }
+    char
+// @lengthOf(
+//x
+Z9_ , } options{ Pad
+= '0' /// triple
+} options { trueish = ""it's"" matchKey =
+    false
+    ; T = float32 ;
+    /// triple
+    len= ' ' ; string_
+=
+    i16 ; } root// `tick` ""quote"" 'q'
+packet f32a{char[]
+    // trailing space 
+    u8x
+    , }")).
+Eval vm_compute in ("<<<M4209>>>" ++ check (runes_of_ascii "options {
+    body = 0123456789
+}
+
+packet tag {
+    o @lengthOf(packetx) `" ++ [28040; 24687; 31867; 22411]%N ++ runes_of_ascii "`,
+    repeat options1 {
+        float64 o `doc`,
+    },
+}
+
+root packet float {
+    // trailing space 
+    @calculatedFrom(""a	b"")
+    //	t
+    float32 BodyLength `crlf
+        line`,
+    repeat f32a Header `say ""hi""`,
+    int8 falsey `{ , }`,
+}")).
+Eval vm_compute in ("<<<M1280>>>" ++ check (runes_of_ascii "
+root packet  uint8x
+{x_y_z zchar`{ , }` ,// `tick` ""quote"" 'q'
+}
+    root packet zchar { //x
+@tag(42 ) @leftPad (
+    //
+    '\x00' ) len options1 `two words`
+    , repeat char[ 255]_x ,} options {
+options1 // " ++ [27880; 37322]%N ++ runes_of_ascii "
+='\x00'msg_type= 0123456789 leftPad =// a // b
+' ' ; T	= /// triple
+true roots	= ""abc""//
+;}")).
+Eval vm_compute in ("<<<M1415>>>" ++ check (runes_of_ascii "root packet packet Foo // " ++ [128512]%N ++ runes_of_ascii " emoji
+{ } options {
+    // a // b
+    tag // `tick` ""quote"" 'q'
+= //	t
+""""
+    ; u8x = zchar[0  ] }
+MetaData
+    int {zchar[ 10]
+lengthOf	`` , i64 u8x`// not a comment` ,MetaDataX pack// `tick` ""quote"" 'q'
+`crlf
+line`
+, Logon charz `crlf
+line`
+    ,
+    // a // b
+    }
+")).
+Eval vm_compute in ("<<<M1517>>>" ++ check (runes_of_ascii "root packet Foo // " ++ [128512]%N ++ runes_of_ascii " emoji
+{ } options {
+    // a // b
+    tag // `tick` ""quote"" 'q'
+= //	t
+""""
+    ; u8x = zchar[0  ] }
+MetaData
+    int {zchar[ int32]
+lengthOf	`` , i64 u8x`// not a comment` ,MetaDataX pack// `tick` ""quote"" 'q'
+`crlf
+line`
+, Logon charz `crlf
+line`
+    ,
+    // a // b
+    }
+")).
+Eval vm_compute in ("<<<M3290>>>" ++ check (runes_of_ascii "// top
+packet
+    // c0
+o
+    // c1
+{
+    // c2
+@tag(
+    // c3
+42
+    // c4
+)
+    // c5
+repeat
+    // c6
+x
+    // c7
+{
+    // c8
+char[
     // c9
-packetx // c10a
-  // c10b
-o `u8 x,` // c12a
-  // c12b
-, // c13a
-  // c13b
+0123456789
+    // c10
+]
+    // c11
+i64_
+    // c12
+,
+    // c13
 }
     // c14
 ,
     // c15
-@leftPad // c16
-( // c17a
-  // c17b
-'\x00' // c18a
-  // c18b
-) repeat char[
-    // c21
-0123456789
-    // c22
-] // c23
-repeatCount // c24
-,
-    // c25
-} // c26a
-  // c26b
-packet // c27
-Packet // c28
-{ // c29a
-  // c29b
-} ")).
-Eval vm_compute in ("<<<M1158>>>" ++ check (runes_of_ascii "packet// a // b
-crc {@rightPad ( '0') int@calculatedFrom(""\n"" ) ,
-o// trailing space 
-, Header
-`say ""hi""`	, @lengthOf( asx
-// " ++ [27880; 37322]%N ++ runes_of_ascii "
-//
-)
-    // c
-    repeat packetx
-{  match uint8x
-    as o { 65535 /// triple
-:
-    _x// trailing space 
-42 : x,  }, } ,repeat x_y_z	, char[ 00 ] crc@lengthOf(
-    Z9_
-)
-    , u8x
-    {uint32
-float
-    `" ++ [28040; 24687; 31867; 22411]%N ++ runes_of_ascii "`
-, string_
-    `
-`, zchar[ 65535] u , falsey
-    @lengthOf( MetaDataX) ,
-    //
-    } ,string A `two words`  , }")).
-Eval vm_compute in ("<<<M817>>>" ++ check (runes_of_ascii "
-packet As //x
-{ repeatCount @lengthOf(tag // trailing space 
-)	, trueish {i64 a1 //	t
-,Z9_ @calculatedFrom(""CRC32""	) , char[
-    42 ] rootA // c
-, repeat/// triple
-u128 _x ,}
-, @lengthOf(
-    string_ //	t
-) i8
-    falsey ,	@leftPad (' ' ) @rightPad (' ' ) match // @lengthOf(
-calculatedFrom as  leftPad { 65535 :
-leftPad
-[
-00
-,
-1 , ""\n"" ,
-1 ,3
-// " ++ [27880; 37322]%N ++ runes_of_ascii "
-// a // b
-]
-: repeatCount , [
-    // " ++ [27880; 37322]%N ++ runes_of_ascii "
-    """ ++ [128512]%N ++ runes_of_ascii """ ,42 ] : i8i8, },} // " ++ [128512]%N ++ runes_of_ascii " emoji")).
-Eval vm_compute in ("<<<M100>>>" ++ check (runes_of_ascii "packet roots {
-    } packet metadata {
-    @lengthOf( u) @tag(00 )
-@lengthOf( Pad )  T @lengthOf( pack ),@rightPad
-( '0' )lengthOf , @lengthOf(  u) char[]
-    //
-    A ,
-match  Packet as // `tick` ""quote"" 'q'
-a1{007
-: leftPad 65535
-    :// trailing space 
-msg_type , ""a\\"" :
-// " ++ [128512]%N ++ runes_of_ascii " emoji
-// @lengthOf(
-Z9_ """ ++ [233]%N ++ runes_of_ascii "t" ++ [233]%N ++ runes_of_ascii """
-: A , ""// no comment""	:x_y_z,
-4294967296 : a1
-    ,/// triple
-} ,f32	T
-    , f64 roots	@lengthOf( int ), }")).
-Eval vm_compute in ("<<<M784>>>" ++ check (runes_of_ascii "packet Header
-{stringy@calculatedFrom( ""x y"" ) ,
-    @tag(0	) uint64 trueish
-    //	t
-    ,
-    uint8x , trueish BodyLength,crc chars , } MetaData
-As { char[]A ,u8x trueish
-//	t
-//
-`
-` , uint16
-// trailing space 
-// " ++ [27880; 37322]%N ++ runes_of_ascii "
-leftPad`" ++ [233]%N ++ runes_of_ascii "` , i16 u8x // c
-,
-// trailing space 
-// @lengthOf(
-f64
-    f32a  `tab	here` ,}
-    packet i8i8
-{repeat int `line1
-line2` ,} MetaData
-    len {
-crc string_`crlf
-line`, }
-")).
-Eval vm_compute in ("<<<M258>>>" ++ check (runes_of_ascii "MetaData stringy
-    //x
-    { A MetaDataX ,}
-    packet  x	{ @calculatedFrom( /// triple
-"""")
-char[] body``
-/// triple
-// c
-, matchKey @lengthOf( uint8x ) , } // packet A { u8 x, }
-options{	T
-// `tick` ""quote"" 'q'
-// trailing space 
-=true
-; o// packet A { u8 x, }
-=
-// c
-//	t
-'0'	; asx
-    //
-    = 4294967296
-x= ""CRC32""o =
-zchar[ 7 ] } options { /// triple
-As =false ; } //x")).
-Eval vm_compute in ("<<<M1328>>>" ++ check (runes_of_ascii "packet
-zchar { }  root packet f32a {}options { } root //
-packet  options1 {
-@calculatedFrom(
-""`tick`""	)char[] BodyLength , match	x_y_z as string_  {  1
-    : len ,
-    ""\" ++ [233]%N ++ runes_of_ascii """	: lengthOf ,//x
-[""""
-] :
-leftPad
-    , 3
-    : leftPad[""a	b""]
-    :
-BodyLength
-,
-} //	t
-,
-// `tick` ""quote"" 'q'
-// trailing space 
-} MetaData matchKey {
-char[ 0123456789 ] u8x	`" ++ [28040; 24687; 31867; 22411]%N ++ runes_of_ascii "`
-,
-    }
-")).
-Eval vm_compute in ("<<<M4391>>>" ++ check (runes_of_ascii "// `tick` ""quote"" 'q'
-root packet u128 {
-    Z9_ {
-        match trueish as rootA {
-            [0, ""abc"", ""{,}""] : MetaDataX,
-            [""a\""b""] : tag,
-            ""CRC32"" : options1,
-            [""" ++ [28040; 24687]%N ++ runes_of_ascii """, ""a\\""] : lengthOf,
-            ""a\""b"" : chars,
-        },
-    },
-    @rightPad('0')
-    @calculatedFrom(""CRC32"")
-    char[00] packetx,
-}// a // b")).
-Eval vm_compute in ("<<<M122>>>" ++ check (runes_of_ascii "root packet u128{} root packet
-charz {// packet A { u8 x, }
-@tag( 7
-    )MetaDataX	, _x { uint32
-As,
-    charz ,}	,
-len {  int64	u128 , repeat falsey
-{x_y_z@lengthOf(
-asx )
-//	t
-// c
-, // c
 }
-,repeatCount
-    {	metadata
-@calculatedFrom( ""\n""
-) `doc` , Logon Foo
-// trailing space 
-// " ++ [128512]%N ++ runes_of_ascii " emoji
-,} // " ++ [27880; 37322]%N ++ runes_of_ascii "
-,
-float  rootA , }
-, }
-// a // b
-")).
-Eval vm_compute in ("<<<M1083>>>" ++ check (runes_of_ascii "// a // b
-options {
-_x = ' '	} packet pack { } packet Foo { @tag(10
-)
-char BodyLength @lengthOf(	_x )
-`say ""hi""` /// triple
-, zchar[42 ] Foo ,
-    match string_
-    as
-o {
-0123456789: u128 42
-    :
-    asx,
-} , // " ++ [27880; 37322]%N ++ runes_of_ascii "
-match lengthOf as
-    body
-{ ""1"" : u128
-    , 3 : chars , 00
-    :	T, },
-    // `tick` ""quote"" 'q'
-    }
-")).
-Eval vm_compute in ("<<<M360>>>" ++ check (runes_of_ascii "
-packet zchar{
-stringy//
-@lengthOf(
-    MetaDataX )
-    `it's` ,
-    @tag(
-    1
-    )match	Z9_ as
-    calculatedFrom { """ ++ [28040; 24687]%N ++ runes_of_ascii """ :
-    Header, 0123456789 : asx [	255 ]//	t
-: // " ++ [128512]%N ++ runes_of_ascii " emoji
-rootA	""\n""
-: zchar , } , repeat float64 rootA, char[] repeatCount
-, repeat
-int32 metadata `" ++ [233]%N ++ runes_of_ascii "` , repeat
-char[
-7	] u8x ,
-    }
-")).
-Eval vm_compute in ("<<<M1184>>>" ++ check (runes_of_ascii "/// triple
-MetaData body { zchar[ 65535 ]
-    //	t
-    _x , zchar[ 10 ]
-o	, i8i8 trueish ,
-Header
-u128
-`doc` ,// `tick` ""quote"" 'q'
-} packet matchKey { zchar `" ++ [233]%N ++ runes_of_ascii "` , }
-packet
-    metadata
-    {int16
-    len@lengthOf(
-// trailing space 
-// `tick` ""quote"" 'q'
-charz ) `two words` , // trailing space 
+    // c16
+options
+    // c17
+{
+    // c18
 }
-")).
-Eval vm_compute in ("<<<M1577>>>" ++ check (runes_of_ascii "root packet Foo // " ++ [128512]%N ++ runes_of_ascii " emoji
-{ } options {
-    // a // b
-    tag // `tick` ""quote"" 'q'
-= //	t
-""""
-    ; u8x = zchar[0  ] }
-MetaData
-    int {zchar[ 10]
-lengthOf	`` , i64 u8x`// not a comment` ,MetaDataX pack// `tick` ""quote"" 'q'
-`crlf
-line`
-match Logon charz `crlf
-line`
-    ,
-    // a // b
-    }
-")).
-Eval vm_compute in ("<<<M1520>>>" ++ check (runes_of_ascii "root packet Foo // " ++ [128512]%N ++ runes_of_ascii " emoji
-{ } options {
-    // a // b
-    tag // `tick` ""quote"" 'q'
-= //	t
-""""
-    ; u8x = zchar[0  ] }
-MetaData
-    int {zchar[ 10] ]
-lengthOf	`` , i64 u8x`// not a comment` ,MetaDataX pack// `tick` ""quote"" 'q'
-`crlf
-line`
-, Logon charz `crlf
-line`
-    ,
-    // a // b
-    }
-")).
-Eval vm_compute in ("<<<M1426>>>" ++ check (runes_of_ascii "root packet Foo // " ++ [128512]%N ++ runes_of_ascii " emoji
-} { options {
-    // a // b
-    tag // `tick` ""quote"" 'q'
-= //	t
-""""
-    ; u8x = zchar[0  ] }
-MetaData
-    int {zchar[ 10]
-lengthOf	`` , i64 u8x`// not a comment` ,MetaDataX pack// `tick` ""quote"" 'q'
-`crlf
-line`
-, Logon charz `crlf
-line`
-    ,
-    // a // b
-    }
-")).
-Eval vm_compute in ("<<<M1587>>>" ++ check (runes_of_ascii "root packet Foo // " ++ [128512]%N ++ runes_of_ascii " emoji
-{ } options {
-    // a // b
-    tag // `tick` ""quote"" 'q'
-= //	t
-""""
-    ; u8x = zchar[0  ] }
-MetaData
-    int {zchar[ 10]
-lengthOf	`` , i64 u8x`// not a comment` ,MetaDataX pack// `tick` ""quote"" 'q'
-`crlf
-line`
-, Logon uint8 `crlf
-line`
-    ,
-    // a // b
-    }
-")).
-Eval vm_compute in ("<<<M1582>>>" ++ check (runes_of_ascii "root packet Foo // " ++ [128512]%N ++ runes_of_ascii " emoji
-{ } options {
-    // a // b
-    tag // `tick` ""quote"" 'q'
-= //	t
-""""
-    ; u8x = zchar[0  ] }
-MetaData
-    int {zchar[ 10]
-lengthOf	`` , i64 u8x`// not a comment` ,MetaDataX pack// `tick` ""quote"" 'q'
-`crlf
-line`
-, f32 charz `crlf
-line`
-    ,
-    // a // b
-    }
-")).
-Eval vm_compute in ("<<<M625>>>" ++ check (runes_of_ascii "
-options { u128 = u32 ;Z9_
-=""`tick`"" trueish= ""`tick`"" ;
-    // @lengthOf(
-    tag
-    = '0'
-} options
-    { metadata = ""a	b"" ;
-packetx =//	t
-'\x00' // " ++ [128512]%N ++ runes_of_ascii " emoji
-} options {charz
-    = 65535}
-options {
-    msg_type // trailing space 
-=zchar[
-10 ] ;
-    asx	= false
-    tag
-= char[] ;
-}")).
-Eval vm_compute in ("<<<M745>>>" ++ check (runes_of_ascii "  packet roots  {
-match
-// packet A { u8 x, }
-// " ++ [27880; 37322]%N ++ runes_of_ascii "
-u as repeatCount{4294967296	: repeatCount ,
-    1
-    : T, ""CRC32"" : matchKey , } , @rightPad // @lengthOf(
-(
-) @lengthOf( A	) @lengthOf(
-/// triple
-//x
-lengthOf // " ++ [27880; 37322]%N ++ runes_of_ascii "
-) repeat Pad {	zchar[ 4294967296] T  `tab	here`,} , }
-")).
-Eval vm_compute in ("<<<M3686>>>" ++ check (runes_of_ascii "packet _x {
-    // packet A { u8 x, }
-    repeat u8 Logon,
-    match Packet as repeatCount {
-        65535 : leftPad,
-        [7] : rootA,
-        4294967296 : Header,
-        [00] : u8x,
-        42 : MetaDataX,
-        007 : uint8x,
-        // @lengthOf(
-    },
-}")).
-Eval vm_compute in ("<<<M4471>>>" ++ check (runes_of_ascii "MetaData i8i8 {
-    int8 charz `doc`,
-}
-
-packet Header {
-    repeat int32 lengthOf `line1
-        line2`,
-}
-
-options {
-    float = char[];
-}
-
-packet i8i8 {
-    uint8 u128 @lengthOf(repeatCount) `crlf
-        line`,
-}
-
-options {
-    Packet = char[007]
-}")).
-Eval vm_compute in ("<<<M3680>>>" ++ check (runes_of_ascii "packet _x {
-    // packet A { u8 x, }
-    repeat u8 Logon,
-    match Packet as repeatCount {
-        65535 : leftPad,
-        [7] : rootA,
-        4294967296 : Header,
-        [00] : u8x,
-        42 : MetaDataX,
-        007 : uint8x,
-    },
-}")).
-Eval vm_compute in ("<<<M1320>>>" ++ check (runes_of_ascii "root
-packet stringy { match uint8x as roots
-    {
-[ ""a\""b""] :rootA
-, 42
-:
-    int
-    , ""a\\"" : Logon,
-[ 7 ] : o , 65535
-: x	}
-// `tick` ""quote"" 'q'
-// a // b
-,
-@tag( // " ++ [128512]%N ++ runes_of_ascii " emoji
-65535 ) string options1 @lengthOf( Logon
-    ) ,
-    }")).
-Eval vm_compute in ("<<<M257>>>" ++ check (runes_of_ascii "packet
-float { f64 float `u8 x,` ,
-// " ++ [27880; 37322]%N ++ runes_of_ascii "
-//	t
-@tag(
-1 )len tag `crlf
-line`
-, } root packet u	{ o x `it's` , @rightPad
-    ( ) repeat zchar[
-00]	Foo ,
-    // trailing space 
-    }root
-packet// `tick` ""quote"" 'q'
-string_{}
-
-")).
-Eval vm_compute in ("<<<M3613>>>" ++ check (runes_of_ascii "packet B {
-    // c2
-    u8 a,
-}// c6a
-
-// c6b
-root packet P {
-    // c10a
-    // c10b
-    u8 K,// c13a
-    // c13b
-    u64 L @lengthOf(Body),
     // c19
-    match K as Body {
-        // c24
-        1 : B,
-    },
-}// c31")).
-Eval vm_compute in ("<<<M2298>>>" ++ check (runes_of_ascii "MetaData Packet { }packet	asx  { @lengthOf( asx) falsey`crlf
+")).
+Eval vm_compute in ("<<<M1486>>>" ++ check (runes_of_ascii "root packet Foo // " ++ [128512]%N ++ runes_of_ascii " emoji
+{ } options {
+    // a // b
+    tag // `tick` ""quote"" 'q'
+= //	t
+""""
+    ; u8x = zchar[0  } ]
+MetaData
+    int {zchar[ 10]
+lengthOf	`` , i64 u8x`// not a comment` ,MetaDataX pack// `tick` ""quote"" 'q'
+`crlf
 line`
-,
-    }
-    packet x	{@leftPad// @lengthOf(
-rootA	,u32 options1 `say ""hi""` , @tag( 7
-    )// packet A { u8 x, }
-msg_type @lengthOf(
-stringy	)	, }
-
-")).
-Eval vm_compute in ("<<<M2214>>>" ++ check (runes_of_ascii "Packet MetaData { }packet	asx  { @lengthOf( asx) falsey`crlf
+, Logon charz `crlf
 line`
-,
+    ,
+    // a // b
     }
-    packet x	{uint32// @lengthOf(
-rootA	,u32 options1 `say ""hi""` , @tag( 7
-    )// packet A { u8 x, }
-msg_type @lengthOf(
-stringy	)	, }
-
 ")).
-Eval vm_compute in ("<<<M3289>>>" ++ check (runes_of_ascii "// top
-packet // c0
-o // c1
-{ // c2
-@tag( // c3
-42 // c4
-) // c5
-repeat // c6
-x // c7
-{ // c8
-char[ // c9
-0123456789 // c10
-] // c11
-i64_ // c12
-, // c13
-} // c14
-, // c15
-} // c16
-options // c17
-{ // c18
-} // c19
-")).
-Eval vm_compute in ("<<<M2394>>>" ++ check (runes_of_ascii "MetaData a" ++ [769]%N ++ runes_of_ascii "b { }packet	asx  { @lengthOf( asx) falsey`crlf
+Eval vm_compute in ("<<<M1449>>>" ++ check (runes_of_ascii "root packet Foo // " ++ [128512]%N ++ runes_of_ascii " emoji
+{ } options {
+    // a // b
+    tag // `tick` ""quote"" 'q'
+ //	t
+""""
+    ; u8x = zchar[0  ] }
+MetaData
+    int {zchar[ 10]
+lengthOf	`` , i64 u8x`// not a comment` ,MetaDataX pack// `tick` ""quote"" 'q'
+`crlf
 line`
-,
-    }
-    packet x	{uint32// @lengthOf(
-rootA	,u32 options1 `say ""hi""` , @tag( 7
-    )// packet A { u8 x, }
-msg_type @lengthOf(
-stringy	)	, }
-
-")).
-Eval vm_compute in ("<<<M2355>>>" ++ check (runes_of_ascii "MetaData Packet { }packet	asx  { @lengthOf( asx) falsey`crlf
+, Logon charz `crlf
 line`
-,
+    ,
+    // a // b
     }
-    packet x	{uint32// @lengthOf(
-rootA	,u32 options1 `say ""hi""` , @tag( 7
-    )// packet A { u8 x, }
-msg_type @lengthOf(
-	)	, }
-
 ")).
-Eval vm_compute in ("<<<M4436>>>" ++ check (runes_of_ascii "packet metadata {
-    @rightPad('\x00')
-    @rightPad('\x00')
-    char[] _x @calculatedFrom(""a\\""),
-    repeat int64 roots,
-    repeat zchar[007] i64_,
-    match A as o {
-        ""1"" : Foo,
-    },//x
-}")).
-Eval vm_compute in ("<<<M1165>>>" ++ check (runes_of_ascii "options
-{
-roots = u8 f32a =
-'\x00'	BodyLength
-=
-    """ ++ [28040; 24687]%N ++ runes_of_ascii """ }MetaData// a // b
-packetx{ i32  options1,	zchar[ 1]
-u8x // @lengthOf(
-`doc` ,
-    zchar[ 7 ]	matchKey // " ++ [27880; 37322]%N ++ runes_of_ascii "
-, int8 As `crlf
+Eval vm_compute in ("<<<M1477>>>" ++ check (runes_of_ascii "root packet Foo // " ++ [128512]%N ++ runes_of_ascii " emoji
+{ } options {
+    // a // b
+    tag // `tick` ""quote"" 'q'
+= //	t
+""""
+    ; u8x = as 0  ] }
+MetaData
+    int {zchar[ 10]
+lengthOf	`` , i64 u8x`// not a comment` ,MetaDataX pack// `tick` ""quote"" 'q'
+`crlf
 line`
-, }")).
-Eval vm_compute in ("<<<M3597>>>" ++ check (runes_of_ascii "  packet
-
-    Pad
-
-{	} packet 	 // packet A { u8 x, }
-		len  // a // b
-  { string 
-u128,} root packet  o
-{
-@tag( 7)char[]
-msg_type
-    @calculatedFrom(""// no comment""
-
-    )
-,
-	}
-
-")).
-Eval vm_compute in ("<<<M4042>>>" ++ check (runes_of_ascii "
-packet A
-    {
-
-u8
-a,
-    }
-
-    packet B	{ u16  b
-
-, } root
-	packet
-    P { u8 K1
-
-,  u8
-	K2
-,
-    match
-K1 as
-
-    M1 
-{	1:  A, } ,
-match
-	K2
-	as
-
-M2 {	1:B 
-, }
-
-,  }
-
-")).
-Eval vm_compute in ("<<<M506>>>" ++ check (runes_of_ascii "MetaData body{
-i8
-zchar
-,string_ Foo
-,
-char[
-3  ]MetaDataX  ,} options
-{body =
-    zchar[ 10
-]//
-;	msg_type  = 007 //	t
-Header = ""{,}"" ;
-    zchar = false
-    ;
+, Logon charz `crlf
+line`
+    ,
+    // a // b
     }
 ")).
-Eval vm_compute in ("<<<M1357>>>" ++ check (runes_of_ascii "root packet  len{
-@rightPad (
-'0' )
-T {
-/// triple
-// c
-match charz
-as crc
-{ 3  :// a // b
-BodyLength 42 : stringy ""a\\"" :options1 // c
-}
-    , } ,
-} // a // b")).
-Eval vm_compute in ("<<<M1205>>>" ++ check (runes_of_ascii "
-packet charz {
-    char[
-// packet A { u8 x, }
-//
-0123456789
-] A `it's` , u64
-Z9_
-, @calculatedFrom(
-""// no comment"")
-    A
-,u
-    o
-    , }  options{}
+Eval vm_compute in ("<<<M1524>>>" ++ check (runes_of_ascii "root packet Foo // " ++ [128512]%N ++ runes_of_ascii " emoji
+{ } options {
+    // a // b
+    tag // `tick` ""quote"" 'q'
+= //	t
+""""
+    ; u8x = zchar[0  ] }
+MetaData
+    int {zchar[ 10]
+	`` , i64 u8x`// not a comment` ,MetaDataX pack// `tick` ""quote"" 'q'
+`crlf
+line`
+, Logon charz `crlf
+line`
+    ,
+    // a // b
+    }
 ")).
-Eval vm_compute in ("<<<M102>>>" ++ check (runes_of_ascii "packet u128
-{ i64 A `{ , }`
-,
-    } MetaData
-    i64_ {
-trueish
-Z9_ ,
-// " ++ [128512]%N ++ runes_of_ascii " emoji
-// `tick` ""quote"" 'q'
-} options { metadata = i16 ; charz=
-false}
-")).
-Eval vm_compute in ("<<<M623>>>" ++ check (runes_of_ascii "packet uint8x
-    // c
-    {
-char[
-    7]stringy
-    @calculatedFrom(""a\""b""  )
-`tab	here` , // c
-@calculatedFrom(
-    ""abc""
-) Logon roots ,}
-")).
-Eval vm_compute in ("<<<M4125>>>" ++ check (runes_of_ascii "options
-
-    {matchKey = 
-' '
-
-tag
-    = '\x00' 
-; metadata
-	// `tick` ""quote"" 'q'
-    	// @lengthOf(
-=  string;
-charz	= 65535
-	; 
+Eval vm_compute in ("<<<M4099>>>" ++ check (runes_of_ascii "packet x_y_z {
+    @calculatedFrom("""")
+    repeat _x f32a,
+    @calculatedFrom(""it's"")
+    chars,
+    int32 u8x,// c
 }
 
-")).
-Eval vm_compute in ("<<<M3994>>>" ++ check (runes_of_ascii "packet
+options {
+    crc = """ ++ [233]%N ++ runes_of_ascii "t" ++ [233]%N ++ runes_of_ascii """
+}
 
-    calculatedFrom{
-    @tag( 4294967296 )	u msg_type
-	,
+root packet string_ {
+}
 
-    char[
-3
+packet x {
+    u8x Packet,
+    i32 float,
+}
 
-    ]  crc@lengthOf(
-    len
-	)
-`u8 x,` 
-, // c
+options {
+    Pad = 4294967296;
+    leftPad = """ ++ [233]%N ++ runes_of_ascii "t" ++ [233]%N ++ runes_of_ascii """
 }")).
-Eval vm_compute in ("<<<M4486>>>" ++ check (runes_of_ascii "packet A {
-    match k as n {
-        [
-            1, 22, 007, 4, 5,
-            66, 7, 8, 9
-        ] : B,
-        2 : C,
-    },
-}")).
-Eval vm_compute in ("<<<M1199>>>" ++ check (runes_of_ascii "options
-    {charz
-= 00 ; leftPad = zchar[0123456789
-    ] ;
-//x
-/// triple
-} options  { falsey= u32 ; }root packet float{
-    }
-")).
-Eval vm_compute in ("<<<M3945>>>" ++ check (runes_of_ascii "packet
-A
-
-{
-
-match  k	as n {
-
+Eval vm_compute in ("<<<M380>>>" ++ check (runes_of_ascii "options {
+falsey =
+    ""a	b"" ;leftPad = '0'// " ++ [128512]%N ++ runes_of_ascii " emoji
+; o =// c
+float64 } packet//
+x { match f32a
+as uint8x {
 [
-	""a""
-
+    255 ,
+    7 , 42
+    /// triple
+    , 7 ,  ""abc""
+    , 255 , ""1"" //	t
+, 0 ]:matchKey
 ,
+    // trailing space 
+    } , } // packet A { u8 x, }")).
+Eval vm_compute in ("<<<M982>>>" ++ check (runes_of_ascii "packet	pack{ uint8 metadata`line1
+line2`
+    , @tag(
+    0123456789
+)
+    string matchKey @calculatedFrom( ""`tick`"" ) `" ++ [28040; 24687; 31867; 22411]%N ++ runes_of_ascii "`
+    ,
+@tag( 1 ) // trailing space 
+i8i8 `doc`, o `crlf
+line`  , }MetaData leftPad { f32a
+    int , // packet A { u8 x, }
+}
 
-22 ,
-	""c c""  , 4 ,
-	""e"",
-
-    66
-
-    ,  ""g"" ,	8	,""i""]
-: B	2
-
-    :  C}
-    , }
 ")).
-Eval vm_compute in ("<<<M612>>>" ++ check (runes_of_ascii "options
-{Header =
-4294967296 charz =true Pad =	'\x00'charz=
+Eval vm_compute in ("<<<M800>>>" ++ check (runes_of_ascii "root
+    //	t
+    packet Logon //
+{ @tag(0123456789 )	@leftPad (' '
+) Packet{
+o @calculatedFrom(""a	b""
+    )  `tab	here`
+    , },
+    repeat leftPad i8i8`line1
+line2` , i64 calculatedFrom , float32 stringy @calculatedFrom(
+""`tick`"" )	, }
+
+")).
+Eval vm_compute in ("<<<M424>>>" ++ check (runes_of_ascii "options{ } options { Foo  =	3;
+u// @lengthOf(
+=	""{,}"" trueish
+=
+3
+// c
+// a // b
+;  a1 = char[] } //	t
+packet//
+i64_
+{ repeat Header rootA `a\`
+    , /// triple
+@tag( 3)
+char[// `tick` ""quote"" 'q'
+10 ]  matchKey
+`{ , }`, } // c")).
+Eval vm_compute in ("<<<M12>>>" ++ check (runes_of_ascii "  MetaData	calculatedFrom
+{char[]
+lengthOf
+    , } // trailing space 
+root // " ++ [27880; 37322]%N ++ runes_of_ascii "
+packet _x { @calculatedFrom(""" ++ [28040; 24687]%N ++ runes_of_ascii """) repeat zchar _x ,
+    // packet A { u8 x, }
+    repeat zchar[42//x
+]
+Pad , @tag(42	)char[ 42] u8x
+    ,}
+")).
+Eval vm_compute in ("<<<M2278>>>" ++ check (runes_of_ascii "MetaData Packet { }packet	asx  { @lengthOf( asx) falsey`crlf
+line`
+,
+    char[
+    packet x	{uint32// @lengthOf(
+rootA	,u32 options1 `say ""hi""` , @tag( 7
+    )// packet A { u8 x, }
+msg_type @lengthOf(
+stringy	)	, }
+
+")).
+Eval vm_compute in ("<<<M2238>>>" ++ check (runes_of_ascii "MetaData Packet { }packet	root  { @lengthOf( asx) falsey`crlf
+line`
+,
+    }
+    packet x	{uint32// @lengthOf(
+rootA	,u32 options1 `say ""hi""` , @tag( 7
+    )// packet A { u8 x, }
+msg_type @lengthOf(
+stringy	)	, }
+
+")).
+Eval vm_compute in ("<<<M2282>>>" ++ check (runes_of_ascii "MetaData Packet { }packet	asx  { @lengthOf( asx) falsey`crlf
+line`
+,
+    }
+    x packet	{uint32// @lengthOf(
+rootA	,u32 options1 `say ""hi""` , @tag( 7
+    )// packet A { u8 x, }
+msg_type @lengthOf(
+stringy	)	, }
+
+")).
+Eval vm_compute in ("<<<M2325>>>" ++ check (runes_of_ascii "MetaData Packet { }packet	asx  { @lengthOf( asx) falsey`crlf
+line`
+,
+    }
+    packet x	{uint32// @lengthOf(
+rootA	,u32 options1 `say ""hi""`  @tag( 7
+    )// packet A { u8 x, }
+msg_type @lengthOf(
+stringy	)	, }
+
+")).
+Eval vm_compute in ("<<<M246>>>" ++ check (runes_of_ascii "packet a1 {//	t
+} root packet float {char[] pack ,
+@tag(
+65535 ) u16 string_
+// trailing space 
+// c
+, repeat rootA	{
+// `tick` ""quote"" 'q'
+//x
+repeat
+    asx charz
+`a\`, }
     // `tick` ""quote"" 'q'
-    """"
-    ; } MetaData MetaDataX { }")).
-Eval vm_compute in ("<<<M1685>>>" ++ check (runes_of_ascii "root packet /// triple
+    ,}
+")).
+Eval vm_compute in ("<<<M1573>>>" ++ check (runes_of_ascii "root packet Foo // " ++ [128512]%N ++ runes_of_ascii " emoji
+{ } options {
+    // a // b
+    tag // `tick` ""quote"" 'q'
+= //	t
+""""
+    ; u8x = zchar[0  ] }
+MetaData
+    int {zchar[ 10]
+lengthOf	`` , i64 u8x`// not a comment` ,MetaDataX pack")).
+Eval vm_compute in ("<<<M3500>>>" ++ check (runes_of_ascii "
+root packet
+	Frame{
+
+    u8 K
+,Logon
+	first ,
+match K
+
+as
+Body{
+	1
+    :
+Logon
+    ,2
+    :
+    Logout , 
+}  ,}
+packet
+Logon
+
+    { string
+    user ,	} packet
+	Logout
+{ u16 reason,
+	}
+")).
+Eval vm_compute in ("<<<M955>>>" ++ check (runes_of_ascii "options {  charz =
+    """ ++ [128512]%N ++ runes_of_ascii """crc
+// " ++ [27880; 37322]%N ++ runes_of_ascii "
+//x
+= false;
+    u128
+= false
+    ; crc
+=
+' '}
+    /// triple
+    packet msg_type { string u8x , zchar[ 10] zchar@calculatedFrom(
+    ""abc"") `{ , }`, }
+")).
+Eval vm_compute in ("<<<M4345>>>" ++ check (runes_of_ascii "
+packet uint8x
+    {
+f32
+Header
+	@calculatedFrom( ""CRC32"" )
+    ,
+}
+MetaData
+roots {  string  f32a , }MetaData int  {
+
+options1
+string_  ,// `tick` ""quote"" 'q'
+		f64
+	float	,	} ")).
+Eval vm_compute in ("<<<M579>>>" ++ check (runes_of_ascii "packet uint8x {f32 Header @calculatedFrom( ""CRC32""
+),
+    }MetaData  roots { string f32a , }MetaData int  { options1 string_
+    , // `tick` ""quote"" 'q'
+f64
+float,
+    }
+")).
+Eval vm_compute in ("<<<M206>>>" ++ check (runes_of_ascii "options
+    {As
+=false	;
+}root packet calculatedFrom // a // b
+{ zchar[
+255 ] Z9_
+,  }  MetaData metadata{ int8 chars
+, char[]
+charz `two words` , char[ 0]
+rootA, }")).
+Eval vm_compute in ("<<<M4490>>>" ++ check (runes_of_ascii "options {
+    options1 = ""\" ++ [233]%N ++ runes_of_ascii """
+    x = u64
+    Z9_ = '0'
+    calculatedFrom = char[];
+}
+
+root packet trueish {
+}
+
+packet BodyLength {
+    @leftPad()
+    u64 _x,
+}")).
+Eval vm_compute in ("<<<M683>>>" ++ check (runes_of_ascii "root
+    packet
+    Packet// packet A { u8 x, }
+{leftPad
+    As , char[]	string_ ,
+} MetaData
+x {
+a1 u128 `u8 x,`	,
+// a // b
+// packet A { u8 x, }
+}
+
+")).
+Eval vm_compute in ("<<<M1523>>>" ++ check (runes_of_ascii "root packet Foo // " ++ [128512]%N ++ runes_of_ascii " emoji
+{ } options {
+    // a // b
+    tag // `tick` ""quote"" 'q'
+= //	t
+""""
+    ; u8x = zchar[0  ] }
+MetaData
+    int {zchar[ 10")).
+Eval vm_compute in ("<<<M516>>>" ++ check (runes_of_ascii "packet i8i8
+// packet A { u8 x, }
+//x
+{@rightPad
+    () msg_type{ rootA
+len , }
+    // trailing space 
+    , } root packet  options1
+    {  }
+")).
+Eval vm_compute in ("<<<M4413>>>" ++ check (runes_of_ascii "root packet charz {
+    @calculatedFrom(""a	b"")
+    repeat f32a options1 `u8 x,`,
+}
+
+options {
+    // " ++ [27880; 37322]%N ++ runes_of_ascii "
+    zchar = char[3];
+}
+/// triple")).
+Eval vm_compute in ("<<<M1675>>>" ++ check (runes_of_ascii "root packet /// triple
 rootA {	i32
 MetaDataX@calculatedFrom( ""CRC32"" ) `line1
-line2` , } ' ' BodyLength {
+line2` repeat } MetaData BodyLength {
 u8
 rootA, } // c")).
-Eval vm_compute in ("<<<M4204>>>" ++ check (runes_of_ascii "packet As {
-    char[0123456789] repeatCount,
-    u32 _x `// not a comment`,
-    @tag(3)
-    repeat i64 len `say ""hi""`,
-}")).
-Eval vm_compute in ("<<<M1887>>>" ++ check (runes_of_ascii "packet
-    Pad // a // b
-{ ~ i8i8 @calculatedFrom( ""a	b"") `u8 x,` ,
-} options{ float// " ++ [128512]%N ++ runes_of_ascii " emoji
-= f64 i64_
-=//	t
-00 }
-")).
-Eval vm_compute in ("<<<M1792>>>" ++ check (runes_of_ascii "packet
-    Pad // a // b
-i8i8 { @calculatedFrom( ""a	b"") `u8 x,` ,
-} options{ float// " ++ [128512]%N ++ runes_of_ascii " emoji
-= f64 i64_
-=//	t
-00 }
-")).
-Eval vm_compute in ("<<<M1845>>>" ++ check (runes_of_ascii "packet
-    Pad // a // b
-{ i8i8 @calculatedFrom( ""a	b"") `u8 x,` ,
-} options{ float// " ++ [128512]%N ++ runes_of_ascii " emoji
- f64 i64_
-=//	t
-00 }
-")).
-Eval vm_compute in ("<<<M1850>>>" ++ check (runes_of_ascii "packet
-    Pad // a // b
-{ i8i8 @calculatedFrom( ""a	b"") `u8 x,` ,
-} options{ float// " ++ [128512]%N ++ runes_of_ascii " emoji
-=  i64_
-=//	t
-00 }
-")).
-Eval vm_compute in ("<<<M1701>>>" ++ check (runes_of_ascii "root packet /// triple
+Eval vm_compute in ("<<<M1663>>>" ++ check (runes_of_ascii "root packet /// triple
+rootA {	i32
+MetaDataX@calculatedFrom( ""CRC32"" ) ) `line1
+line2` , } MetaData BodyLength {
+u8
+rootA, } // c")).
+Eval vm_compute in ("<<<M1654>>>" ++ check (runes_of_ascii "root packet /// triple
+rootA {	i32
+MetaDataX""CRC32"" @calculatedFrom( ) `line1
+line2` , } MetaData BodyLength {
+u8
+rootA, } // c")).
+Eval vm_compute in ("<<<M1697>>>" ++ check (runes_of_ascii "root packet /// triple
 rootA {	i32
 MetaDataX@calculatedFrom( ""CRC32"" ) `line1
-line2` , } MetaData BodyLength {")).
-Eval vm_compute in ("<<<M4>>>" ++ check (runes_of_ascii "packet // a // b
-tag {
-    char[ 7]
-body
-@calculatedFrom( ""a	b"")
-// trailing space 
-// trailing space 
-,
-}")).
-Eval vm_compute in ("<<<M2994>>>" ++ check (runes_of_ascii "packet A {
-  match k as n {
-    [1, ""bb"", 007, ""d"", 5, ""f"", 7, ""h"", 9, ""j"", 11, ""l""] : B
-    2 : C
-  },
-}")).
-Eval vm_compute in ("<<<M3346>>>" ++ check (runes_of_ascii "packet calculatedFrom { @tag(
-// c
-4294967296 ) u msg_type , char[ 3 ] crc @lengthOf( len ) `u8 x,` , }")).
-Eval vm_compute in ("<<<M3976>>>" ++ check (runes_of_ascii "
-packet
-	leftPad
-	{char[]
-MetaDataX `crlf
-line` 
-, f32 
-pack
-    @calculatedFrom( ""a\\"")
-`" ++ [28040; 24687; 31867; 22411]%N ++ runes_of_ascii "`  , 
-} ")).
-Eval vm_compute in ("<<<M3671>>>" ++ check (runes_of_ascii "packet A {
-    u32 crc @calculatedFrom(""\
-        ""),
-    @calculatedFrom(""\
-        "")
-    u8 y,
-}")).
-Eval vm_compute in ("<<<M2968>>>" ++ check (runes_of_ascii "packet A {
-  match k as n {
-    [1, ""bb"", 007, ""d"", 5, ""f"", 7, ""h"", 9, ""j""] : B
-    2 : C
-  },
-}")).
-Eval vm_compute in ("<<<M3228>>>" ++ check (runes_of_ascii "packet Logon { @tag( 42 ) @rightPad // c
-( ' ' ) @leftPad ( ) repeat trueish { string T , } , }")).
-Eval vm_compute in ("<<<M4472>>>" ++ check (runes_of_ascii "packet A{  match k
+line2` , } MetaData BodyLength {
 
-as 
-n  { [
-	1  ,	22
-    , ""c c"" 
-,
-    4
-	]
-    : B
-    2
-
-    :C}
-, }
-
+rootA, } // c")).
+Eval vm_compute in ("<<<M1650>>>" ++ check (runes_of_ascii "root packet /// triple
+rootA {	i32
+int32@calculatedFrom( ""CRC32"" ) `line1
+line2` , } MetaData BodyLength {
+u8
+rootA, } // c")).
+Eval vm_compute in ("<<<M4001>>>" ++ check (runes_of_ascii "packet A {
+    u16 len @lengthOf(body) `tab
+    	x`,
+    u32 crc @calculatedFrom(""CRC32"") `tab
+    	x`,
+    string body,
+}")).
+Eval vm_compute in ("<<<M71>>>" ++ check (runes_of_ascii "options{ BodyLength=
+    '\x00' }options
+{ } options {  Pad
+    = ""\" ++ [233]%N ++ runes_of_ascii """  msg_type
+= uint32 ; a1 = '0'  Foo =
+    ' ' ; }")).
+Eval vm_compute in ("<<<M1883>>>" ++ check (runes_of_ascii "packet
+    Pad // a // b
+{ i8i8 @calculatedFrom( ""a	b"") `u8 x,` ,
+} options{ #float// " ++ [128512]%N ++ runes_of_ascii " emoji
+= f64 i64_
+=//	t
+00 }
 ")).
-Eval vm_compute in ("<<<M4312>>>" ++ check (runes_of_ascii "packet A {
-    Logon {
-        repeat char[42] falsey `a\`,
-        repeat int32 T,
-    },
+Eval vm_compute in ("<<<M1842>>>" ++ check (runes_of_ascii "packet
+    Pad // a // b
+{ i8i8 @calculatedFrom( ""a	b"") `u8 x,` ,
+} options{ =// " ++ [128512]%N ++ runes_of_ascii " emoji
+float f64 i64_
+=//	t
+00 }
+")).
+Eval vm_compute in ("<<<M4074>>>" ++ check (runes_of_ascii "packet body {
+    float32 zchar @lengthOf(x_y_z),
+    u64 int @calculatedFrom(""abc""),
+    // " ++ [27880; 37322]%N ++ runes_of_ascii "
+}
+
+root packet u {
 }")).
-Eval vm_compute in ("<<<M2294>>>" ++ check (runes_of_ascii "MetaData Packet { }packet	asx  { @lengthOf( asx) falsey`crlf
-line`
-,
+Eval vm_compute in ("<<<M3494>>>" ++ check (runes_of_ascii "
+
+  packet FooBar 
+{u8
+a,  }  packet
+
+    foo_bar 
+{u16	b ,
     }
-    packet x")).
-Eval vm_compute in ("<<<M2913>>>" ++ check (runes_of_ascii "packet A {
+root packet
+    R
+    {FooBar ,foo_bar
+,
+} ")).
+Eval vm_compute in ("<<<M1223>>>" ++ check (runes_of_ascii "packet options1
+    {zchar[ 007
+]f32a
+    @lengthOf(
+    //
+    msg_type )
+// `tick` ""quote"" 'q'
+// " ++ [128512]%N ++ runes_of_ascii " emoji
+,}")).
+Eval vm_compute in ("<<<M2986>>>" ++ check (runes_of_ascii "packet A {
   match k as n {
-    [""a"", ""bb"", ""c c"", ""d"", ""e"", ""f""] : B,
+    [""a"", ""bb"", 007, ""d"", ""e"", 66, ""g"", ""h"", 9, ""j"", ""k""] : B,
     2 : C
   },
 }")).
-Eval vm_compute in ("<<<M1978>>>" ++ check (runes_of_ascii "root
-packet crc
-    { @calculatedFrom( f32a """ ++ [233]%N ++ runes_of_ascii "t" ++ [233]%N ++ runes_of_ascii """ )
-    `say ""hi""`, lengthOf `` ,  }")).
-Eval vm_compute in ("<<<M3477>>>" ++ check (runes_of_ascii "packet order_item {
+Eval vm_compute in ("<<<M2982>>>" ++ check (runes_of_ascii "packet A {
+  match k as n {
+    [""a"", 22, ""c c"", 4, ""e"", 66, ""g"", 8, ""i"", 10, ""k""] : B,
+    2 : C
+  },
+}")).
+Eval vm_compute in ("<<<M3353>>>" ++ check (runes_of_ascii "packet calculatedFrom { @tag( 4294967296 ) u msg_type // c
+, char[ 3 ] crc @lengthOf( len ) `u8 x,` , }")).
+Eval vm_compute in ("<<<M3571>>>" ++ check (runes_of_ascii "packet FooBar {
     u8 a,
 }
-root packet new_order {
-    order_item,
-    u8 x,
+
+packet foo_bar {
+    u16 b,
 }
-")).
-Eval vm_compute in ("<<<M1989>>>" ++ check (runes_of_ascii "root
-packet crc
-    { f32a @calculatedFrom( ( )
-    `say ""hi""`, lengthOf `` ,  }")).
-Eval vm_compute in ("<<<M3319>>>" ++ check (runes_of_ascii "packet o { @tag( 42 ) repeat x { char[ 0123456789 ] i64_
+
+root packet R {
+    FooBar,
+    foo_bar,
+}")).
+Eval vm_compute in ("<<<M407>>>" ++ check (runes_of_ascii "// `tick` ""quote"" 'q'
+packet As { u64 msg_type
+,@lengthOf(
+trueish  ) lengthOf
+    int`a\` , //
+}")).
+Eval vm_compute in ("<<<M3259>>>" ++ check (runes_of_ascii "packet Logon { @tag( 42 ) @rightPad ( ' ' ) @leftPad ( ) repeat trueish { string T , } , }
 // c
-, } , } options { }")).
-Eval vm_compute in ("<<<M278>>>" ++ check (runes_of_ascii "options  {Packet= zchar[ 3
-] u128 = zchar[
-42 ] a1=
-'\x00'	;
-crc=	0	; //	t
+")).
+Eval vm_compute in ("<<<M3229>>>" ++ check (runes_of_ascii "packet Logon { @tag( 42 ) @rightPad
+// c
+( ' ' ) @leftPad ( ) repeat trueish { string T , } , }")).
+Eval vm_compute in ("<<<M202>>>" ++ check (runes_of_ascii "
+options {
+roots //x
+=""packet"" ; len  =0 ;crc  =zchar[65535
+/// triple
+// " ++ [128512]%N ++ runes_of_ascii " emoji
+]//x
+;
 }
 ")).
-Eval vm_compute in ("<<<M2887>>>" ++ check (runes_of_ascii "packet A {
-  match k as n {
-    [""a"", ""bb"", ""c c"", ""d""] : B,
-    2 : C
-  },
-}")).
-Eval vm_compute in ("<<<M291>>>" ++ check (runes_of_ascii "options
-    { }
-    packet
-    string_ {@rightPad ( '0'// c
-)
-u16 body , }")).
-Eval vm_compute in ("<<<M2892>>>" ++ check (runes_of_ascii "packet A {
-  match k as n {
-    [""a"", 22, ""c c"", 4] : B
-    2 : C
-  },
-}")).
-Eval vm_compute in ("<<<M2882>>>" ++ check (runes_of_ascii "packet A {
-  match k as n {
-    [""a"", ""bb"", 007] : B,
-    2 : C
-  },
-}")).
-Eval vm_compute in ("<<<M2879>>>" ++ check (runes_of_ascii "packet A {
-  match k as n {
-    [""a"", 22, ""c c""] : B
-    2 : C
-  },
-}")).
-Eval vm_compute in ("<<<M3172>>>" ++ check (runes_of_ascii "packet A { match k as n { [ // a
- 1 // b
- , // c
- 2 ] // d
- : B }, }")).
-Eval vm_compute in ("<<<M2183>>>" ++ check (runes_of_ascii "root
-    // `tick` ""quote"" 'q'
-    packet As { trueish Packet } ,
+Eval vm_compute in ("<<<M4124>>>" ++ check (runes_of_ascii "
+packet 
+A{
+    match
+k as
+
+n{[
+	1	,
+""bb"" ,
+007 ,
+    ""d""	,  5 ]  : 
+B , 
+2
+    :
+C
+}  ,}")).
+Eval vm_compute in ("<<<M1356>>>" ++ check (runes_of_ascii "MetaData u	{ i32 i8i8`u8 x,` , MetaDataX
+// " ++ [27880; 37322]%N ++ runes_of_ascii "
+// " ++ [27880; 37322]%N ++ runes_of_ascii "
+pack `
+` , Logon zchar
+    `doc` ,}
 ")).
-Eval vm_compute in ("<<<M1944>>>" ++ check (runes_of_ascii "
-packet	As { @calculatedFrom(//@lengthOfx
+Eval vm_compute in ("<<<M1994>>>" ++ check (runes_of_ascii "root
+packet crc
+    { f32a @calculatedFrom( """ ++ [233]%N ++ runes_of_ascii "t" ++ [233]%N ++ runes_of_ascii """ i64
+    `say ""hi""`, lengthOf `` ,  }")).
+Eval vm_compute in ("<<<M2041>>>" ++ check (runes_of_ascii "root
+packet crc
+    { f32a @calculatedFrom( """ ++ [233]%N ++ runes_of_ascii "t" ++ [233]%N ++ runes_of_ascii """ )
+    `say ""hi""`, lengthOf `` ,  @}")).
+Eval vm_compute in ("<<<M3054>>>" ++ check (runes_of_ascii "packet A {
+    u32 crc @calculatedFrom(""x\
+y""),
+    @calculatedFrom(""x\
+y"") u8 y,
+}")).
+Eval vm_compute in ("<<<M3051>>>" ++ check (runes_of_ascii "packet A {
+    u32 crc @calculatedFrom(""x\
+y""),
+    @calculatedFrom(""x\
+y"") u8 y,
+}")).
+Eval vm_compute in ("<<<M3296>>>" ++ check (runes_of_ascii "packet o // c
+{ @tag( 42 ) repeat x { char[ 0123456789 ] i64_ , } , } options { }")).
+Eval vm_compute in ("<<<M3328>>>" ++ check (runes_of_ascii "packet o { @tag( 42 ) repeat x { char[ 0123456789 ] i64_ , } , } options // c
+{ }")).
+Eval vm_compute in ("<<<M1962>>>" ++ check (runes_of_ascii "root
+ crc
+    { f32a @calculatedFrom( """ ++ [233]%N ++ runes_of_ascii "t" ++ [233]%N ++ runes_of_ascii """ )
+    `say ""hi""`, lengthOf `` ,  }")).
+Eval vm_compute in ("<<<M3594>>>" ++ check (runes_of_ascii "packet o {
+    @rightPad()
+    // trailing space 
+    x_y_z calculatedFrom,
+}")).
+Eval vm_compute in ("<<<M4207>>>" ++ check (runes_of_ascii "packet A {
+    @tag(1)
+    // a
+    @leftPad('0')
+    // b
+    char[4] x,
+}")).
+Eval vm_compute in ("<<<M1911>>>" ++ check (runes_of_ascii "
+packet	As { @calculatedFrom( @calculatedFrom(//x
 ""{,}""	)lengthOf , } 	 ")).
-Eval vm_compute in ("<<<M2797>>>" ++ check (runes_of_ascii "match 1 char uint64 uint64 @tag( int64 `" ++ [28040; 24687; 31867; 22411]%N ++ runes_of_ascii "` options , uint64")).
-Eval vm_compute in ("<<<M3039>>>" ++ check (runes_of_ascii "packet A {
-    B b `
-x`,
-    B `
-x`,
-    repeat B bs `
-x`,
+Eval vm_compute in ("<<<M2209>>>" ++ check (runes_of_ascii "root
+    // `tick` ""quote"" 'q'
+    packet caf" ++ [233]%N ++ runes_of_ascii "_1 { trueish Packet , }
+")).
+Eval vm_compute in ("<<<M1666>>>" ++ check (runes_of_ascii "root packet /// triple
+rootA {	i32
+MetaDataX@calculatedFrom( ""CRC32""")).
+Eval vm_compute in ("<<<M2876>>>" ++ check (runes_of_ascii "packet A {
+  match k as n {
+    [1, ""bb"", 007] : B,
+    2 : C
+  },
+}")).
+Eval vm_compute in ("<<<M2168>>>" ++ check (runes_of_ascii "root
+    // `tick` ""quote"" 'q'
+    packet As trueish { Packet , }
+")).
+Eval vm_compute in ("<<<M725>>>" ++ check (runes_of_ascii "MetaData options1
+{ zchar[  007 ]u
+,x_y_z f32a
+    `u8 x,` , }
+")).
+Eval vm_compute in ("<<<M2153>>>" ++ check (runes_of_ascii "
+    // `tick` ""quote"" 'q'
+    packet As { trueish Packet , }
+")).
+Eval vm_compute in ("<<<M3033>>>" ++ check (runes_of_ascii "packet A {
+    B b `x
+`,
+    B `x
+`,
+    repeat B bs `x
+`,
 }")).
 Eval vm_compute in ("<<<M3174>>>" ++ check (runes_of_ascii "packet A { // a
  @tag(1) u8 x, // b
  // c
  @tag(2) u8 y, }")).
-Eval vm_compute in ("<<<M1379>>>" ++ check (runes_of_ascii "// " ++ [128512]%N ++ runes_of_ascii " emoji
-MetaData u {int	Foo, f32a stringy `doc`,
-} 	 ")).
-Eval vm_compute in ("<<<M4031>>>" ++ check (runes_of_ascii "
-MetaData	M {
-	u8
-    x
-`a
-b`	,
-
-T
-	t
-    `a
-b` ,
-}")).
-Eval vm_compute in ("<<<M4037>>>" ++ check (runes_of_ascii "options {
-    options1 = 65535;
-    msg_type = u64
-}")).
-Eval vm_compute in ("<<<M2862>>>" ++ check (runes_of_ascii "packet A { Inner { match k as n { [1] : B, }, }, }")).
-Eval vm_compute in ("<<<M1934>>>" ++ check (runes_of_ascii "
-packet	As { @calculatedFrom(//x
-""{,}""	)lengthOf")).
-Eval vm_compute in ("<<<M2581>>>" ++ check (runes_of_ascii "packet A { char[] x @calculatedFrom(""c"") `d`, }")).
-Eval vm_compute in ("<<<M1740>>>" ++ check (runes_of_ascii "{ options }options {  } // `tick` ""quote"" 'q'")).
-Eval vm_compute in ("<<<M734>>>" ++ check (runes_of_ascii "//x
-MetaData u{
-    //
-    int64 x_y_z , }
+Eval vm_compute in ("<<<M500>>>" ++ check (runes_of_ascii "packet body { i32 Z9_ @lengthOf( roots),
+    //	t
+    }
 ")).
-Eval vm_compute in ("<<<M2785>>>" ++ check (runes_of_ascii "i64_ char = , packet [ ] @lengthOf( uint64")).
-Eval vm_compute in ("<<<M786>>>" ++ check (runes_of_ascii "options{MetaDataX = char[] }
+Eval vm_compute in ("<<<M175>>>" ++ check (runes_of_ascii "packet
+    A {
+//	t
 /// triple
+repeat
+char[] _x ,  }
 ")).
-Eval vm_compute in ("<<<M3197>>>" ++ check (runes_of_ascii "MetaData zchar { zchar[
-// c
-3 ] Pad , }")).
-Eval vm_compute in ("<<<M4078>>>" ++ check (runes_of_ascii "root packet P {
-    char c,
-    u8 x,
-}")).
-Eval vm_compute in ("<<<M345>>>" ++ check (runes_of_ascii "options
-{ Logon = //x
-'\x00'
-    ; }
+Eval vm_compute in ("<<<M35>>>" ++ check (runes_of_ascii "MetaData trueish { char[]chars , char[] int
+    ,}
 ")).
-Eval vm_compute in ("<<<M2710>>>" ++ check (runes_of_ascii "} f64 @rightPad packet i8 } MetaData")).
-Eval vm_compute in ("<<<M2579>>>" ++ check (runes_of_ascii "packet A { char[3] @lengthOf(y), }")).
-Eval vm_compute in ("<<<M330>>>" ++ check (runes_of_ascii "packet Logon
-    { }packet _x{}
-")).
-Eval vm_compute in ("<<<M2119>>>" ++ check (runes_of_ascii "MetaData x
-{// " ++ [128512]%N ++ runes_of_ascii " emoji
-i16  , }")).
-Eval vm_compute in ("<<<M3103>>>" ++ check (runes_of_ascii "packet A {
- u8 x `d" ++ [8233]%N ++ runes_of_ascii "`, // c" ++ [8233]%N ++ runes_of_ascii "
-}")).
-Eval vm_compute in ("<<<M1064>>>" ++ check (runes_of_ascii "
-root packet x_y_z	{ } //	t")).
-Eval vm_compute in ("<<<M2646>>>" ++ check (runes_of_ascii "MetaData M { repeat u8 x, }")).
-Eval vm_compute in ("<<<M2625>>>" ++ check (runes_of_ascii "packet A { u8 x, @tag(1) }")).
-Eval vm_compute in ("<<<M3282>>>" ++ check (runes_of_ascii "options { u8x = 3 }
-// c
-")).
-Eval vm_compute in ("<<<M3274>>>" ++ check (runes_of_ascii "options {
-// c
-u8x = 3 }")).
-Eval vm_compute in ("<<<M3596>>>" ++ check (runes_of_ascii "options {
-    u8x = 3
-}")).
-Eval vm_compute in ("<<<M4303>>>" ++ check (runes_of_ascii "packet
-
-A
-	{  }// c
+Eval vm_compute in ("<<<M3927>>>" ++ check (runes_of_ascii "options	{	}
+	options	{}	// `tick` ""quo''te"" 'q'
  
 ")).
-Eval vm_compute in ("<<<M609>>>" ++ check (runes_of_ascii "packet	Foo{
-    } 	 ")).
-Eval vm_compute in ("<<<M2667>>>" ++ check (runes_of_ascii "options options { }")).
-Eval vm_compute in ("<<<M3062>>>" ++ check (runes_of_ascii "// c 
-packet A {
+Eval vm_compute in ("<<<M2396>>>" ++ check (runes_of_ascii "MetaData A
+{
+i64
+chars	} , // `tick` ""quote"" 'q'")).
+Eval vm_compute in ("<<<M3012>>>" ++ check (runes_of_ascii "MetaData M {
+    u8 x `a
+b`,
+    T t `a
+b`,
 }")).
-Eval vm_compute in ("<<<M3144>>>" ++ check (runes_of_ascii "packet A {
-}// c x")).
-Eval vm_compute in ("<<<M3094>>>" ++ check (runes_of_ascii "packet A {
-}// c" ++ [8232]%N)).
-Eval vm_compute in ("<<<M931>>>" ++ check (runes_of_ascii "options
-    { }")).
-Eval vm_compute in ("<<<M4137>>>" ++ check (runes_of_ascii "packet tag {
+Eval vm_compute in ("<<<M1264>>>" ++ check (runes_of_ascii "root
+packet options1
+{ }
+root packet int{ }")).
+Eval vm_compute in ("<<<M3673>>>" ++ check (runes_of_ascii "MetaData rootA {
+}
+
+options {
+    tag = 3;
 }")).
-Eval vm_compute in ("<<<M2816>>>" ++ check (runes_of_ascii "uint64 as {")).
-Eval vm_compute in ("<<<M2055>>>" ++ check (runes_of_ascii "MetaData")).
-Eval vm_compute in ("<<<M848>>>" ++ check (runes_of_ascii "
-//	t
+Eval vm_compute in ("<<<M2108>>>" ++ check (runes_of_ascii "MetaData @tag(
+{// " ++ [128512]%N ++ runes_of_ascii " emoji
+i16 stringy , }")).
+Eval vm_compute in ("<<<M557>>>" ++ check (runes_of_ascii "
+options
+    {
+i8i8= '0';asx =uint32	}
 ")).
-Eval vm_compute in ("<<<M2431>>>" ++ check (runes_of_ascii "char1")).
-Eval vm_compute in ("<<<M3120>>>" ++ check (runes_of_ascii "// c" ++ [12]%N)).
-Eval vm_compute in ("<<<M73>>>" ++ check (runes_of_ascii " 	 ")).
-Eval vm_compute in ("<<<M2677>>>" ++ check (runes_of_ascii "`d`")).
-Eval vm_compute in ("<<<M2474>>>" ++ check (runes_of_ascii "'")).
+Eval vm_compute in ("<<<M3196>>>" ++ check (runes_of_ascii "MetaData zchar { zchar[ // c
+3 ] Pad , }")).
+Eval vm_compute in ("<<<M2809>>>" ++ check (runes_of_ascii "MetaData `` ; @calculatedFrom( MetaData")).
+Eval vm_compute in ("<<<M4181>>>" ++ check (runes_of_ascii "
+packet
+
+    repeatCount
+{
+
+    }
+")).
+Eval vm_compute in ("<<<M2614>>>" ++ check (runes_of_ascii "packet A { match k as n { 1 : 2 }, }")).
+Eval vm_compute in ("<<<M2618>>>" ++ check (runes_of_ascii "packet A { @tag(1) @tag(2) u8 x, }")).
+Eval vm_compute in ("<<<M2563>>>" ++ check (runes_of_ascii "packet A { repeat repeat u8 x, }")).
+Eval vm_compute in ("<<<M78>>>" ++ check (runes_of_ascii "options { zchar=
+    false ; }")).
+Eval vm_compute in ("<<<M3138>>>" ++ check (runes_of_ascii "packet A {
+ u8 x `d" ++ [65279]%N ++ runes_of_ascii "`, // c" ++ [65279]%N ++ runes_of_ascii "
+}")).
+Eval vm_compute in ("<<<M2583>>>" ++ check (runes_of_ascii "packet A { x @lengthOf(y), }")).
+Eval vm_compute in ("<<<M2837>>>" ++ check (runes_of_ascii "O" ++ [65533; 8; 1374; 65533; 65533; 65533]%N ++ runes_of_ascii "w" ++ [65533]%N ++ runes_of_ascii "I" ++ [65533; 65533; 65533; 65533]%N ++ runes_of_ascii "`1" ++ [65533]%N ++ runes_of_ascii "+" ++ [65533]%N ++ runes_of_ascii ">" ++ [65533; 1492; 23; 65533]%N ++ runes_of_ascii "<q" ++ [65533]%N)).
+Eval vm_compute in ("<<<M2774>>>" ++ check (runes_of_ascii "#" ++ [65533; 28; 65533; 65533]%N ++ runes_of_ascii "P9	" ++ [65533; 8; 65533]%N ++ runes_of_ascii "z" ++ [65533; 65533]%N ++ runes_of_ascii "(," ++ [65533; 65533; 65533; 65533]%N ++ runes_of_ascii " " ++ [22; 65533; 65533; 19]%N ++ runes_of_ascii "C")).
+Eval vm_compute in ("<<<M3389>>>" ++ check (runes_of_ascii "packet lengthOf { }
+// c
+")).
+Eval vm_compute in ("<<<M3277>>>" ++ check (runes_of_ascii "options { u8x = // c
+3 }")).
+Eval vm_compute in ("<<<M3804>>>" ++ check (runes_of_ascii "packet
+lengthOf  {}// c")).
+Eval vm_compute in ("<<<M525>>>" ++ check (runes_of_ascii "packet rootA
+{ //
+}
+")).
+Eval vm_compute in ("<<<M731>>>" ++ check (runes_of_ascii "MetaData crc{//	t
+}
+")).
+Eval vm_compute in ("<<<M2790>>>" ++ check ([65533; 65533; 65533]%N ++ runes_of_ascii "4" ++ [65533; 65533]%N ++ runes_of_ascii "(" ++ [65533]%N ++ runes_of_ascii "X" ++ [65533]%N ++ runes_of_ascii "fb" ++ [65533]%N ++ runes_of_ascii "4" ++ [65533]%N ++ runes_of_ascii "{" ++ [65533]%N ++ runes_of_ascii "E" ++ [65533]%N)).
+Eval vm_compute in ("<<<M2801>>>" ++ check (runes_of_ascii "{ float32 : repeat")).
+Eval vm_compute in ("<<<M3136>>>" ++ check (runes_of_ascii "packet A {
+}
+// c" ++ [65279]%N)).
+Eval vm_compute in ("<<<M3079>>>" ++ check (runes_of_ascii "packet A {
+}// c" ++ [5760]%N)).
+Eval vm_compute in ("<<<M791>>>" ++ check (runes_of_ascii "
+// @lengthOf(
+")).
+Eval vm_compute in ("<<<M290>>>" ++ check (runes_of_ascii "options{  }
+")).
+Eval vm_compute in ("<<<M3578>>>" ++ check (runes_of_ascii "options {
+}")).
+Eval vm_compute in ("<<<M2477>>>" ++ check (runes_of_ascii "@leftPad")).
+Eval vm_compute in ("<<<M2440>>>" ++ check (runes_of_ascii "uint88")).
+Eval vm_compute in ("<<<M2482>>>" ++ check (runes_of_ascii "@left")).
+Eval vm_compute in ("<<<M643>>>" ++ check (runes_of_ascii "  
+
+")).
+Eval vm_compute in ("<<<M2452>>>" ++ check (runes_of_ascii "asx")).
+Eval vm_compute in ("<<<M2438>>>" ++ check (runes_of_ascii "u8")).
+Eval vm_compute in ("<<<M2671>>>" ++ check (runes_of_ascii "}")).
